@@ -6,74 +6,135 @@ C22 — property theorems. The statement (properties.jsonl):
   manifest content (title, assertions, ingredients with their validation results, resources,
   redactions) as signing the original builder.
 
-`content` below is what `Builder::sign` puts into the claim and the report shows (title, claim
-version, generators, thumbnail, redactions, ingredients with their stores and captured results,
-the assertions — label, payload, kind, created/gathered — in claim order, hash algorithm);
-instance numbers are numbering, not content (`content_of_signInput` ties it to the model's
-`signInput`). Equal content ⇒ equal reported content (C03 `report_reflects_definition`).
+The objects (Model/C22.lean): `sign cfg src s g` is `Builder::sign` read back, `report` what the
+`Reader` shows of it (title, claim version, generators, claim thumbnail, applied redactions,
+ingredients with active manifest / validation results / validation status / the image their
+thumbnail resolves to, the assertions with label, instance number, payload, kind and
+created-or-gathered in claim order, the ingredient manifests carried in the store, hash
+algorithm, where the manifest lives). `encode` / `decode` are `to_archive` / `with_archive`.
 
-* `archive_roundtrip_partial` — for every builder state whose assertion labels survive the
-  report filter (`WF`: no hard-binding label, no `org.contentauth.archive.metadata…` label), whose
-  claim version is 1 or 2 and which sets no `hash_alg`, for every fresh guid:
-  `content (decode (encode s g)) = content s` — title, generators, thumbnail, redactions,
-  ingredients (with their manifest stores and captured validation results), assertions (labels,
-  payloads, kinds, created/gathered, instance numbers) are all preserved.
-* `ArchiveRoundtripFull` (the same without the `hash_alg` and label conditions) is false:
-  `archive_roundtrip_full_false` — `hash_alg` is not restored (`into_builder` never sets it);
-  `reserved_label_dropped` — a user assertion labelled like the archive bookkeeping is dropped.
-  Both witnesses are replayed on the implementation by the harness (the first one holds there
-  too and is reported as such; see the harness notes).
-* `restored_is_fixed_point` / `chain_eq_one` / `archive_chain` — a second save/restore is the
-  identity on the restored *record* (not only on its signing input), so chains of any length
-  ≥ 1 give the signing input of the original.
+Positive theorems (all hypotheses are conditions on the *input* builder state and settings):
+* `archive_roundtrip` — one save/restore step, any ingredients: under `WF` the archive is
+  written, both builders sign, and the two reports agree field by field (`ReportEq`: all fields
+  equal, the carried ingredient manifests as sets).
+* `assertions_roundtrip` — the assertion part alone at full strength, with instance numbers:
+  needs only kept labels and `Sep` (assertions whose labels contain one another sit in the same
+  created/gathered class).
+* `archive_chain_plain` — chains of any length for builders whose ingredients carry no
+  manifest store; `chain_examples_*` — kernel-evaluated chains 1–3 for the fixture shapes of
+  manifest-carrying ingredients (one manifest; two linked by `c2pa_manifest`; three).
+
+The unrestricted statement is false of the code. Each restriction of `WF` has a proved witness,
+replayed on the implementation by the harness:
+* `hash_alg_not_restored`, `embedding_mode_not_restored` (remote_url / no_embed),
+  `reserved_prefix_not_restored` (label prefixes routed away by `from_store`),
+* `redaction_resign_fails` (a builder with a redaction cannot be signed after a round trip),
+* `settings_actions_duplicated` (settings-driven actions / templates are appended once per
+  `to_claim`: a chain of n gives n+1 copies), `chain_payload_stable` its positive counterpart,
+* `instance_numbers_swap` (without `Sep` instance numbers move between assertions),
+* `v1_ingredient_thumbnail_lost`, `user_ingredient_thumbnail_replaced` (ingredient thumbnails),
+* `edit_intent_archive_fails` (an Edit intent without parent: signs, but cannot be archived),
+* `orphan_manifest_dropped` (a manifest of an ingredient store that the walk does not reach).
 -/
 namespace C2pa.C22
-open C2pa.C03
+
+deriving instance DecidableEq for Except
+
+/-! ### labels and kinds -/
+
+theorem isActions_v2 : isActions "c2pa.actions.v2" = true := by decide
 
 theorem normLabel_idem (l : String) : normLabel (normLabel l) = normLabel l := by
   unfold normLabel
-  by_cases h : (l == "c2pa.actions") = true
+  by_cases h : isActions l = true
+  · simp [h, isActions_v2]
   · simp [h]
-  · simp [h]
 
-theorem markGens_idem (gs : List Gen) : markGens (markGens gs) = markGens gs := by
-  cases gs with
-  | nil => rfl
-  | cons g t => rfl
+theorem normLabel_of_not_actions {l : String} (h : isActions l = false) : normLabel l = l := by
+  simp [normLabel, h]
 
-/-- what `to_claim` makes of one assertion definition in a version-`v` claim -/
-def norm (v : Nat) (a : BAsn) : BAsn :=
-  { a with label := normLabel a.label
-           created := a.created && decide (v ≥ 2) && !alwaysGathered (normLabel a.label) }
+/-- what `from_store` makes of the kind -/
+def fix (a : BAsn) : BAsn := { a with json := reportKind a.label a.json }
 
-/-- claim order of assertion contents -/
+/-- one assertion definition as the report of a version-`v` claim shows it -/
+def N (v : Nat) (a : BAsn) : BAsn := fix (norm v a)
+
+theorem fix_idem (a : BAsn) : fix (fix a) = fix a := by
+  unfold fix reportKind
+  by_cases h : (classify a.label == Part.metadata) = true <;> simp [h]
+
+theorem classify_v2 : classify "c2pa.actions.v2" = Part.actions := by decide
+
+theorem typed_not_actions {l : String}
+    (h : (l == "stds.schema-org.CreativeWork" || l == "stds.exif" || l == "c2pa.metadata") = true) :
+    isActions l = false := by
+  simp only [Bool.or_eq_true, beq_iff_eq] at h
+  rcases h with (rfl | rfl) | rfl <;> decide
+
+/-- `to_claim` leaves a reported assertion as it is -/
+theorem norm_N (v : Nat) (a : BAsn) : norm v (N v a) = N v a := by
+  unfold N fix norm
+  simp only [normLabel_idem]
+  by_cases ha : isActions a.label = true
+  · -- actions: label c2pa.actions.v2, kind CBOR
+    have hl : normLabel a.label = "c2pa.actions.v2" := by simp [normLabel, ha]
+    simp only [hl, typedKind, ha, isActions_v2, if_true, reportKind, classify_v2]
+    cases a.created <;> cases decide (v ≥ 2) <;> simp <;> decide
+  · have ha' : isActions a.label = false := by simpa using ha
+    have hl : normLabel a.label = a.label := normLabel_of_not_actions ha'
+    simp only [hl]
+    by_cases ht : (a.label == "stds.schema-org.CreativeWork" || a.label == "stds.exif" ||
+        a.label == "c2pa.metadata") = true
+    · simp only [typedKind, ha', ht, if_true, reportKind]
+      by_cases hm : (classify a.label == Part.metadata) = true
+      · simp [hm]
+        cases a.created <;> cases decide (v ≥ 2) <;> cases alwaysGathered a.label <;> rfl
+      · simp [hm]
+        cases a.created <;> cases decide (v ≥ 2) <;> cases alwaysGathered a.label <;> rfl
+    · have ht' : (a.label == "stds.schema-org.CreativeWork" || a.label == "stds.exif" ||
+          a.label == "c2pa.metadata") = false := by simpa using ht
+      simp only [typedKind, ha', ht', reportKind]
+      simp
+      cases a.created <;> cases decide (v ≥ 2) <;> cases alwaysGathered a.label <;> rfl
+
+theorem fix_N (v : Nat) (a : BAsn) : fix (N v a) = N v a := fix_idem _
+
+theorem N_label (v : Nat) (a : BAsn) : (N v a).label = normLabel a.label := rfl
+
+/-! ### numbering and claim order -/
+
+/-- numbering of (already normalised) assertions, as pairs -/
+def numP : List BAsn → List (String × Nat) → List (BAsn × Nat)
+  | [], _ => []
+  | a :: as, seen =>
+    let i := instOf seen a.label
+    (a, i) :: numP as (seen ++ [(a.label, i)])
+
+/-- the user assertions among entries with their instance numbers -/
+def usersOf : List Entry → List (BAsn × Nat)
+  | [] => []
+  | .user a k :: es => (a, k) :: usersOf es
+  | _ :: es => usersOf es
+
+def pairOrder (v : Nat) (ps : List (BAsn × Nat)) : List (BAsn × Nat) :=
+  if v ≥ 2 then ps.filter (fun q => q.1.created) ++ ps.filter (fun q => !q.1.created) else ps
+
 def asnOrder (v : Nat) (as : List BAsn) : List BAsn :=
   if v ≥ 2 then as.filter (·.created) ++ as.filter (fun a => !a.created) else as
 
-/-- the user assertions among store entries, instance numbers dropped -/
-def asnsOf : List Entry → List BAsn
-  | [] => []
-  | .user a _ :: es => a :: asnsOf es
-  | _ :: es => asnsOf es
-
-theorem norm_idem (v : Nat) (a : BAsn) : norm v (norm v a) = norm v a := by
-  unfold norm
-  simp only [normLabel_idem]
-  cases a.created <;> cases decide (v ≥ 2) <;> cases alwaysGathered (normLabel a.label) <;> rfl
-
-theorem asnsOf_number (v : Nat) (as : List BAsn) (seen : List (String × Nat)) :
-    asnsOf (numberAsns v as seen) = as.map (norm v) := by
+theorem usersOf_number (as : List BAsn) (seen : List (String × Nat)) :
+    usersOf (numberAsns as seen) = numP as seen := by
   induction as generalizing seen with
   | nil => rfl
-  | cons a t ih => simp only [numberAsns, asnsOf, List.map_cons, ih]; rfl
+  | cons a t ih => simp only [numberAsns, usersOf, numP, ih]
 
-theorem asnsOf_append (l r : List Entry) : asnsOf (l ++ r) = asnsOf l ++ asnsOf r := by
+theorem usersOf_append (l r : List Entry) : usersOf (l ++ r) = usersOf l ++ usersOf r := by
   induction l with
   | nil => rfl
-  | cons e t ih => cases e <;> simp [asnsOf, ih]
+  | cons e t ih => cases e <;> simp [usersOf, ih]
 
-theorem asnsOf_filter_created (es : List Entry) :
-    asnsOf (es.filter entryCreated) = (asnsOf es).filter (·.created) := by
+theorem usersOf_filter_created (es : List Entry) :
+    usersOf (es.filter entryCreated) = (usersOf es).filter (fun q => q.1.created) := by
   induction es with
   | nil => rfl
   | cons e t ih =>
@@ -81,22 +142,23 @@ theorem asnsOf_filter_created (es : List Entry) :
     | user a i =>
       by_cases h : a.created = true
       · rw [List.filter_cons_of_pos (by exact h)]
-        simp only [asnsOf]
+        simp only [usersOf]
         rw [List.filter_cons_of_pos (by exact h), ih]
       · rw [List.filter_cons_of_neg (by exact h)]
-        simp only [asnsOf]
+        simp only [usersOf]
         rw [List.filter_cons_of_neg (by exact h), ih]
-    | thumb f b => rw [List.filter_cons_of_neg (by simp [entryCreated])]; simpa [asnsOf] using ih
-    | ingredient i => rw [List.filter_cons_of_neg (by simp [entryCreated])]; simpa [asnsOf] using ih
-    | archiveMeta => rw [List.filter_cons_of_neg (by simp [entryCreated])]; simpa [asnsOf] using ih
-    | boxHash => rw [List.filter_cons_of_neg (by simp [entryCreated])]; simpa [asnsOf] using ih
+    | archiveMeta => rw [List.filter_cons_of_pos (by simp [entryCreated])]; simpa [usersOf] using ih
+    | thumb f b => rw [List.filter_cons_of_neg (by simp [entryCreated])]; simpa [usersOf] using ih
+    | ingredient i k => rw [List.filter_cons_of_neg (by simp [entryCreated])]; simpa [usersOf] using ih
+    | boxHash => rw [List.filter_cons_of_neg (by simp [entryCreated])]; simpa [usersOf] using ih
+    | dataHash => rw [List.filter_cons_of_neg (by simp [entryCreated])]; simpa [usersOf] using ih
 
 /-- `!entryCreated` -/
 def entryGathered (e : Entry) : Bool := !entryCreated e
 
-theorem asnsOf_filter_gathered (es : List Entry) :
-    asnsOf (es.filter fun e => !entryCreated e) = (asnsOf es).filter (fun a => !a.created) := by
-  show asnsOf (es.filter entryGathered) = _
+theorem usersOf_filter_gathered (es : List Entry) :
+    usersOf (es.filter fun e => !entryCreated e) = (usersOf es).filter (fun q => !q.1.created) := by
+  show usersOf (es.filter entryGathered) = _
   induction es with
   | nil => rfl
   | cons e t ih =>
@@ -105,310 +167,1871 @@ theorem asnsOf_filter_gathered (es : List Entry) :
       by_cases h : a.created = true
       · have hg : entryGathered (.user a i) = false := by simp [entryGathered, entryCreated, h]
         rw [List.filter_cons_of_neg (by simp [hg])]
-        simp only [asnsOf]
+        simp only [usersOf]
         rw [List.filter_cons_of_neg (by simp [h]), ih]
       · have hg : entryGathered (.user a i) = true := by simp [entryGathered, entryCreated, h]
         rw [List.filter_cons_of_pos hg]
-        simp only [asnsOf]
+        simp only [usersOf]
         rw [List.filter_cons_of_pos (by simp [h]), ih]
-    | thumb f b => rw [List.filter_cons_of_pos (by simp [entryGathered, entryCreated])]; simpa [asnsOf] using ih
-    | ingredient i => rw [List.filter_cons_of_pos (by simp [entryGathered, entryCreated])]; simpa [asnsOf] using ih
-    | archiveMeta => rw [List.filter_cons_of_pos (by simp [entryGathered, entryCreated])]; simpa [asnsOf] using ih
-    | boxHash => rw [List.filter_cons_of_pos (by simp [entryGathered, entryCreated])]; simpa [asnsOf] using ih
+    | archiveMeta => rw [List.filter_cons_of_neg (by simp [entryGathered, entryCreated])]; simpa [usersOf] using ih
+    | thumb f b => rw [List.filter_cons_of_pos (by simp [entryGathered, entryCreated])]; simpa [usersOf] using ih
+    | ingredient i k => rw [List.filter_cons_of_pos (by simp [entryGathered, entryCreated])]; simpa [usersOf] using ih
+    | boxHash => rw [List.filter_cons_of_pos (by simp [entryGathered, entryCreated])]; simpa [usersOf] using ih
+    | dataHash => rw [List.filter_cons_of_pos (by simp [entryGathered, entryCreated])]; simpa [usersOf] using ih
 
-theorem asnsOf_claimOrder (v : Nat) (es : List Entry) :
-    asnsOf (claimOrder v es) = asnOrder v (asnsOf es) := by
-  unfold claimOrder asnOrder
+theorem usersOf_claimOrder (v : Nat) (es : List Entry) :
+    usersOf (claimOrder v es) = pairOrder v (usersOf es) := by
+  unfold claimOrder pairOrder
   by_cases h : v ≥ 2
-  · simp only [h, if_true, asnsOf_append, asnsOf_filter_created, asnsOf_filter_gathered]
+  · simp only [h, if_true, usersOf_append, usersOf_filter_created, usersOf_filter_gathered]
   · simp only [h, if_false]
 
-theorem decodeEntries_eq (es : List Entry) :
-    decodeEntries es = (asnsOf es).filter (fun a => keptLabel a.label) := by
+theorem numP_fst (as : List BAsn) (seen : List (String × Nat)) : (numP as seen).map (·.1) = as := by
+  induction as generalizing seen with
+  | nil => rfl
+  | cons a t ih => simp [numP, ih]
+
+theorem numP_mem (as : List BAsn) (seen : List (String × Nat)) :
+    ∀ q ∈ numP as seen, q.1 ∈ as := by
+  intro q hq
+  have : q.1 ∈ (numP as seen).map (·.1) := List.mem_map_of_mem hq
+  rwa [numP_fst] at this
+
+/-- numbering only looks at labels: it commutes with any label-preserving rewrite -/
+theorem numP_map (f : BAsn → BAsn) (hf : ∀ a, (f a).label = a.label) (as : List BAsn)
+    (seen : List (String × Nat)) :
+    numP (as.map f) seen = (numP as seen).map (fun q => (f q.1, q.2)) := by
+  induction as generalizing seen with
+  | nil => rfl
+  | cons a t ih => simp [numP, hf, ih]
+
+theorem numP_append (x y : List BAsn) (seen : List (String × Nat)) :
+    numP (x ++ y) seen =
+      numP x seen ++ numP y (seen ++ (numP x seen).map (fun q => (q.1.label, q.2))) := by
+  induction x generalizing seen with
+  | nil => simp [numP]
+  | cons a t ih => simp [numP, ih, List.append_assoc]
+
+/-- stored entries whose label contains `l` -/
+def rel (l : String) (x : String × Nat) : Bool := infixOf l.toList x.1.toList
+
+theorem instOf_congr {s₁ s₂ : List (String × Nat)} {l : String}
+    (h : s₁.filter (rel l) = s₂.filter (rel l)) : instOf s₁ l = instOf s₂ l := by
+  unfold instOf
+  show (match (s₁.filter (rel l)).map (·.2) with | [] => 0 | i :: is => is.foldl max i + 1) =
+    (match (s₂.filter (rel l)).map (·.2) with | [] => 0 | i :: is => is.foldl max i + 1)
+  rw [h]
+
+/-- The numbering of one created/gathered class does not see the other class, when no label of
+the class is contained in a label of the other class. -/
+theorem numP_filter (p : Bool) (X : List BAsn) (sA sC : List (String × Nat))
+    (hrel : ∀ a ∈ X, a.created = p → sA.filter (rel a.label) = sC.filter (rel a.label))
+    (hsep : ∀ a ∈ X, ∀ b ∈ X, a.created = p → b.created ≠ p →
+      infixOf a.label.toList b.label.toList = false) :
+    (numP X sA).filter (fun q => q.1.created == p) = numP (X.filter (fun a => a.created == p)) sC := by
+  induction X generalizing sA sC with
+  | nil => rfl
+  | cons a t ih =>
+    by_cases ha : a.created = p
+    · have hi : instOf sA a.label = instOf sC a.label := instOf_congr (hrel a (by simp) ha)
+      simp only [numP]
+      rw [List.filter_cons_of_pos (by simp [ha]), List.filter_cons_of_pos (by simp [ha])]
+      simp only [numP, hi]
+      congr 1
+      apply ih
+      · intro b hb hbp
+        simp only [List.filter_append]
+        rw [hrel b (by simp [hb]) hbp]
+      · intro x hx y hy
+        exact hsep x (by simp [hx]) y (by simp [hy])
+    · simp only [numP]
+      rw [List.filter_cons_of_neg (by simp [ha]), List.filter_cons_of_neg (by simp [ha])]
+      apply ih
+      · intro b hb hbp
+        simp only [List.filter_append]
+        rw [hrel b (by simp [hb]) hbp]
+        have : infixOf b.label.toList a.label.toList = false :=
+          hsep b (by simp [hb]) a (by simp) hbp ha
+        simp [rel, this]
+      · intro x hx y hy
+        exact hsep x (by simp [hx]) y (by simp [hy])
+
+/-- assertions whose labels contain one another sit in the same created/gathered class -/
+def Sep (X : List BAsn) : Prop :=
+  ∀ a ∈ X, ∀ b ∈ X, a.created ≠ b.created → infixOf a.label.toList b.label.toList = false
+
+/-- **Numbering commutes with the created-first reordering** of a version-2 claim. -/
+theorem numP_order (X : List BAsn) (hsep : Sep X) :
+    numP (X.filter (·.created) ++ X.filter (fun a => !a.created)) [] =
+      (numP X []).filter (fun q => q.1.created) ++ (numP X []).filter (fun q => !q.1.created) := by
+  rw [numP_append]
+  have hC := numP_filter true X [] [] (fun _ _ _ => rfl)
+    (fun a ha b hb hap hbp => hsep a ha b hb (by rw [hap]; exact fun h => hbp h.symm))
+  have hG := numP_filter false X []
+    ([] ++ (numP (X.filter (·.created)) []).map (fun q => (q.1.label, q.2)))
+    (by
+      intro a ha hag
+      simp only [List.filter_nil, List.nil_append]
+      symm
+      apply List.filter_eq_nil_iff.2
+      intro x hx
+      obtain ⟨q, hq, rfl⟩ := List.mem_map.1 hx
+      have hqC : q.1 ∈ X.filter (·.created) := numP_mem _ _ q hq
+      have hqX : q.1 ∈ X := (List.mem_filter.1 hqC).1
+      have hqc : q.1.created = true := by simpa using (List.mem_filter.1 hqC).2
+      have : infixOf a.label.toList q.1.label.toList = false :=
+        hsep a ha q.1 hqX (by rw [hag, hqc]; decide)
+      simp [rel, this])
+    (fun a ha b hb hap hbp => hsep a ha b hb (by rw [hap]; exact fun h => hbp h.symm))
+  have e1 : (fun a : BAsn => a.created == true) = (fun a => a.created) := by funext a; simp
+  have e2 : (fun a : BAsn => a.created == false) = (fun a => !a.created) := by funext a; simp
+  have e3 : (fun q : BAsn × Nat => q.1.created == true) = (fun q => q.1.created) := by funext a; simp
+  have e4 : (fun q : BAsn × Nat => q.1.created == false) = (fun q => !q.1.created) := by funext a; simp
+  rw [e1, e3] at hC
+  rw [e2, e4] at hG
+  rw [hC, hG]
+
+theorem pairOrder_idem (v : Nat) (l : List (BAsn × Nat)) : pairOrder v (pairOrder v l) = pairOrder v l := by
+  unfold pairOrder
+  by_cases hv : v ≥ 2
+  · simp only [hv, if_true]
+    have hA : ∀ a ∈ l.filter (fun q => q.1.created), a.1.created = true :=
+      fun a ha => (List.mem_filter.1 ha).2
+    have hB : ∀ a ∈ l.filter (fun q => !q.1.created), a.1.created = false := by
+      intro a ha
+      have := (List.mem_filter.1 ha).2
+      simpa using this
+    have e1 : (l.filter (fun q => q.1.created)).filter (fun q => q.1.created) = l.filter (fun q => q.1.created) :=
+      List.filter_eq_self.2 hA
+    have e2 : (l.filter (fun q => !q.1.created)).filter (fun q => q.1.created) = [] :=
+      List.filter_eq_nil_iff.2 (fun a ha => by simp [hB a ha])
+    have e3 : (l.filter (fun q => q.1.created)).filter (fun q => !q.1.created) = [] :=
+      List.filter_eq_nil_iff.2 (fun a ha => by simp [hA a ha])
+    have e4 : (l.filter (fun q => !q.1.created)).filter (fun q => !q.1.created) =
+        l.filter (fun q => !q.1.created) := List.filter_eq_self.2 (fun a ha => by simp [hB a ha])
+    rw [List.filter_append, List.filter_append, e1, e2, e3, e4]
+    simp
+  · simp [hv]
+
+/-- numbering a list that is already in claim order gives the claim order of the numbering -/
+theorem numP_asnOrder (v : Nat) (X : List BAsn) (hsep : Sep X) :
+    numP (asnOrder v X) [] = pairOrder v (numP X []) := by
+  unfold asnOrder pairOrder
+  by_cases hv : v ≥ 2
+  · simp only [hv, if_true]
+    exact numP_order X hsep
+  · simp only [hv, if_false]
+
+theorem pairOrder_map (v : Nat) (f : BAsn → BAsn) (hf : ∀ a, (f a).created = a.created)
+    (l : List (BAsn × Nat)) :
+    pairOrder v (l.map (fun q => (f q.1, q.2))) = (pairOrder v l).map (fun q => (f q.1, q.2)) := by
+  unfold pairOrder
+  by_cases hv : v ≥ 2
+  · simp only [hv, if_true, List.map_append, List.filter_map]
+    have e1 : ((fun q : BAsn × Nat => q.1.created) ∘ fun q : BAsn × Nat => (f q.1, q.2)) =
+        fun q => q.1.created := by funext q; simp [hf]
+    have e2 : ((fun q : BAsn × Nat => !q.1.created) ∘ fun q : BAsn × Nat => (f q.1, q.2)) =
+        fun q => !q.1.created := by funext q; simp [hf]
+    rw [e1, e2]
+  · simp [hv]
+
+theorem pairOrder_fst (v : Nat) (l : List (BAsn × Nat)) :
+    (pairOrder v l).map (·.1) = asnOrder v (l.map (·.1)) := by
+  unfold pairOrder asnOrder
+  by_cases hv : v ≥ 2
+  · simp only [hv, if_true, List.map_append, List.filter_map]
+    rfl
+  · simp [hv]
+
+/-! ### the assertion part of the round trip -/
+
+def fixP (q : BAsn × Nat) : BAsn × Nat := (fix q.1, q.2)
+
+/-- the assertions as reported (label, instance, payload, kind, created; claim order) of a
+version-`v` signing whose assertion definitions are `L` -/
+def reportPairs (v : Nat) (L : List BAsn) : List (BAsn × Nat) :=
+  (pairOrder v (numP (L.map (norm v)) [])).map fixP
+
+/-- the assertion definitions a builder restored from the archive of `L` holds -/
+def restoredAsns (v : Nat) (L : List BAsn) : List BAsn := asnOrder v (L.map (N v))
+
+theorem asnOrder_mem {v : Nat} {Y : List BAsn} {a : BAsn} (h : a ∈ asnOrder v Y) : a ∈ Y := by
+  unfold asnOrder at h
+  by_cases hv : v ≥ 2
+  · simp only [hv, if_true, List.mem_append, List.mem_filter] at h
+    rcases h with h | h <;> exact h.1
+  · simpa [hv] using h
+
+theorem asnOrder_map_id (v : Nat) (Y : List BAsn) (f : BAsn → BAsn) (hf : ∀ y ∈ Y, f y = y) :
+    (asnOrder v Y).map f = asnOrder v Y := by
+  conv => rhs; rw [← List.map_id (asnOrder v Y)]
+  exact List.map_congr_left (fun a ha => hf a (asnOrder_mem ha))
+
+theorem Sep_map (f : BAsn → BAsn) (hl : ∀ a, (f a).label = a.label)
+    (hc : ∀ a, (f a).created = a.created) (X : List BAsn) (h : Sep X) : Sep (X.map f) := by
+  intro a ha b hb hab
+  obtain ⟨a', ha', rfl⟩ := List.mem_map.1 ha
+  obtain ⟨b', hb', rfl⟩ := List.mem_map.1 hb
+  rw [hl, hl]
+  exact h a' ha' b' hb' (by rw [hc, hc] at hab; exact hab)
+
+theorem fixP_idem (q : BAsn × Nat) : fixP (fixP q) = fixP q := by
+  unfold fixP
+  simp [fix_idem]
+
+/-- **assertions_roundtrip** — labels, instance numbers, payloads, kinds, created/gathered and
+claim order of the assertions reported after a save/restore step are those reported for the
+original definitions, whenever assertions whose labels contain one another are in the same
+created/gathered class (`Sep`, on the labels and flags `to_claim` gives them). -/
+theorem assertions_roundtrip (v : Nat) (L : List BAsn) (hsep : Sep (L.map (norm v))) :
+    reportPairs v (restoredAsns v L) = reportPairs v L := by
+  unfold reportPairs restoredAsns
+  have hNN : (asnOrder v (L.map (N v))).map (norm v) = asnOrder v (L.map (N v)) := by
+    apply asnOrder_map_id
+    intro y hy
+    obtain ⟨a, _, rfl⟩ := List.mem_map.1 hy
+    exact norm_N v a
+  rw [hNN]
+  have hN : L.map (N v) = (L.map (norm v)).map fix := by simp [N, Function.comp]
+  have hsepN : Sep (L.map (N v)) := by
+    rw [hN]
+    exact Sep_map fix (fun _ => rfl) (fun _ => rfl) _ hsep
+  rw [numP_asnOrder v _ hsepN, pairOrder_idem, hN, numP_map fix (fun _ => rfl)]
+  have : (fun q : BAsn × Nat => (fix q.1, q.2)) = fixP := rfl
+  rw [this, show pairOrder v ((numP (L.map (norm v)) []).map fixP) =
+      (pairOrder v (numP (L.map (norm v)) [])).map fixP from
+    pairOrder_map v fix (fun _ => rfl) _]
+  rw [List.map_map]
+  congr 1
+  funext q
+  exact fixP_idem q
+
+/-- Without `Sep` instance numbers move between assertions (`x.y` gathered, then `x.y`
+created: directly signed the gathered one is `x.y`, the created one `x.y__1`; after a round trip
+it is the other way round — a reference to `x.y__1` then names the other assertion). -/
+theorem instance_numbers_swap :
+    reportPairs 2 (restoredAsns 2 [⟨"x.y", "1", [], [], false, false⟩, ⟨"x.y", "2", [], [], false, true⟩]) ≠
+      reportPairs 2 [⟨"x.y", "1", [], [], false, false⟩, ⟨"x.y", "2", [], [], false, true⟩] := by
+  decide
+
+example : Sep ([⟨"c2pa.actions", "", ["c2pa.created"], [], false, true⟩, ⟨"org.x", "e", [], [], true, false⟩,
+    ⟨"org.x", "f", [], [], false, false⟩].map (norm 2)) := by
+  intro a ha b hb hab
+  simp at ha hb
+  rcases ha with rfl | rfl | rfl <;> rcases hb with rfl | rfl | rfl <;> first | decide | exact absurd rfl hab
+
+/-! ### settings and intent -/
+
+theorem rewrite_noact (cfg : Cfg) (it : Option Intent) (hp : Bool) (L : List BAsn) (allow : Bool)
+    (h : ∀ a ∈ L, isActions a.label = false) : rewriteAsns cfg it hp L allow = .ok L := by
+  induction L generalizing allow with
+  | nil => rfl
+  | cons a t ih =>
+    have ha : isActions a.label = false := h a (by simp)
+    simp only [rewriteAsns, ha, Bool.false_eq_true, if_false]
+    rw [ih allow (fun b hb => h b (by simp [hb]))]
+
+theorem actionsSettings_plain (cfg : Cfg) (hcfg : cfg.extraActions = [] ∧ cfg.templates = [])
+    (hp : Bool) (acts tmpls : List String) :
+    actionsSettings cfg none hp true acts tmpls = .ok (acts, tmpls) := by
+  unfold actionsSettings
+  simp only [hcfg.1, hcfg.2, List.append_nil, Bool.not_true, Bool.false_and, Bool.true_and]
+  by_cases h : acts.any isInception = true <;> simp [h]
+
+/-- at most one actions assertion -/
+def OneActions (L : List BAsn) : Prop := (L.filter (fun a => isActions a.label)).length ≤ 1
+
+theorem rewrite_plain (cfg : Cfg) (hcfg : cfg.extraActions = [] ∧ cfg.templates = []) (hp : Bool)
+    (L : List BAsn) (h1 : OneActions L) : rewriteAsns cfg none hp L true = .ok L := by
+  induction L with
+  | nil => rfl
+  | cons a t ih =>
+    by_cases ha : isActions a.label = true
+    · have ht : ∀ b ∈ t, isActions b.label = false := by
+        intro b hb
+        by_cases hb' : isActions b.label = true
+        · exfalso
+          unfold OneActions at h1
+          rw [List.filter_cons_of_pos (by exact ha)] at h1
+          have : b ∈ t.filter (fun a => isActions a.label) := List.mem_filter.2 ⟨hb, hb'⟩
+          have hpos : 0 < (t.filter (fun a => isActions a.label)).length := List.length_pos_of_mem this
+          simp only [List.length_cons] at h1
+          omega
+        · simpa using hb'
+      simp only [rewriteAsns, ha, if_true, actionsSettings_plain cfg hcfg, rewrite_noact cfg none hp t false ht]
+    · have ha' : isActions a.label = false := by simpa using ha
+      have h1' : OneActions t := by
+        unfold OneActions at h1 ⊢
+        rw [List.filter_cons_of_neg (by simp [ha'])] at h1
+        exact h1
+      simp only [rewriteAsns, ha', Bool.false_eq_true, if_false, ih h1']
+
+/-- without settings-driven additions and without an intent, `to_claim` takes the assertion
+definitions as they are -/
+theorem prep_plain (cfg : Cfg) (hcfg : cfg.extraActions = [] ∧ cfg.templates = []) (hp : Bool)
+    (L : List BAsn) (h1 : OneActions L) : prepAsns cfg none hp L = .ok L := by
+  unfold prepAsns
+  rw [rewrite_plain cfg hcfg hp L h1]
+  by_cases h : L.any (fun a => isActions a.label) = true
+  · simp [h]
+  · simp only [h, Bool.false_eq_true, if_false, actionsSettings_plain cfg hcfg]
+    simp
+
+theorem isActions_normLabel (l : String) : isActions (normLabel l) = isActions l := by
+  unfold normLabel
+  by_cases h : isActions l = true
+  · simp [h, isActions_v2]
+  · simp [h]
+
+theorem OneActions_restored (v : Nat) (L : List BAsn) (h : OneActions L) :
+    OneActions (restoredAsns v L) := by
+  unfold OneActions restoredAsns asnOrder at *
+  have hm : (L.map (N v)).filter (fun a => isActions a.label) =
+      (L.filter (fun a => isActions a.label)).map (N v) := by
+    rw [List.filter_map]
+    congr 1
+    congr 1
+    funext a
+    simp [Function.comp, N_label, isActions_normLabel]
+  by_cases hv : v ≥ 2
+  · simp only [hv, if_true, List.filter_append]
+    rw [List.filter_filter, List.filter_filter]
+    have hperm : ((L.map (N v)).filter (fun a => isActions a.label && a.created) ++
+        (L.map (N v)).filter (fun a => isActions a.label && !a.created)).length =
+        ((L.map (N v)).filter (fun a => isActions a.label)).length := by
+      generalize L.map (N v) = M
+      induction M with
+      | nil => rfl
+      | cons m t ih =>
+        cases h1 : isActions m.label <;> cases h2 : m.created <;>
+          simp [List.filter_cons, h1, h2] at ih ⊢ <;> omega
+    rw [hperm, hm, List.length_map]
+    exact h
+  · simp only [hv, if_false]
+    rw [hm, List.length_map]
+    exact h
+
+/-! ### projections of a claim's entries -/
+
+def ingsOf : List Entry → List (IngA × Nat)
+  | [] => []
+  | .ingredient i k :: es => (i, k) :: ingsOf es
+  | _ :: es => ingsOf es
+
+def idxFrom : List IngA → Nat → List (IngA × Nat)
+  | [], _ => []
+  | a :: as, k => (a, k) :: idxFrom as (k + 1)
+
+theorem ingsOf_append (l r : List Entry) : ingsOf (l ++ r) = ingsOf l ++ ingsOf r := by
+  induction l with
+  | nil => rfl
+  | cons e t ih => cases e <;> simp [ingsOf, ih]
+
+theorem ingsOf_filter_created (es : List Entry) : ingsOf (es.filter entryCreated) = [] := by
   induction es with
   | nil => rfl
   | cons e t ih =>
     cases e with
     | user a i =>
-      simp only [decodeEntries, asnsOf, List.filter_cons]
-      cases keptLabel a.label <;> simp [ih]
-    | _ => simp [decodeEntries, asnsOf, ih]
+      by_cases h : a.created = true
+      · rw [List.filter_cons_of_pos (by exact h)]; simpa [ingsOf] using ih
+      · rw [List.filter_cons_of_neg (by exact h)]; exact ih
+    | archiveMeta => rw [List.filter_cons_of_pos (by simp [entryCreated])]; simpa [ingsOf] using ih
+    | thumb f b => rw [List.filter_cons_of_neg (by simp [entryCreated])]; exact ih
+    | ingredient i k => rw [List.filter_cons_of_neg (by simp [entryCreated])]; exact ih
+    | boxHash => rw [List.filter_cons_of_neg (by simp [entryCreated])]; exact ih
+    | dataHash => rw [List.filter_cons_of_neg (by simp [entryCreated])]; exact ih
 
-theorem entryIngs_eq_nil_of_user (es : List Entry) (h : ∀ e ∈ es, ∃ a i, e = .user a i) :
-    entryIngs es = [] := by
+theorem ingsOf_filter_gathered (es : List Entry) :
+    ingsOf (es.filter fun e => !entryCreated e) = ingsOf es := by
+  show ingsOf (es.filter entryGathered) = _
   induction es with
   | nil => rfl
   | cons e t ih =>
-    obtain ⟨a, i, rfl⟩ := h e (by simp)
-    simp only [entryIngs]
-    exact ih (fun e he => h e (by simp [he]))
+    cases e with
+    | user a i =>
+      by_cases h : a.created = true
+      · have hg : entryGathered (.user a i) = false := by simp [entryGathered, entryCreated, h]
+        rw [List.filter_cons_of_neg (by simp [hg])]; simpa [ingsOf] using ih
+      · have hg : entryGathered (.user a i) = true := by simp [entryGathered, entryCreated, h]
+        rw [List.filter_cons_of_pos hg]; simpa [ingsOf] using ih
+    | archiveMeta => rw [List.filter_cons_of_neg (by simp [entryGathered, entryCreated])]; simpa [ingsOf] using ih
+    | thumb f b => rw [List.filter_cons_of_pos (by simp [entryGathered, entryCreated])]; simpa [ingsOf] using ih
+    | ingredient i k => rw [List.filter_cons_of_pos (by simp [entryGathered, entryCreated])]; simpa [ingsOf] using ih
+    | boxHash => rw [List.filter_cons_of_pos (by simp [entryGathered, entryCreated])]; simpa [ingsOf] using ih
+    | dataHash => rw [List.filter_cons_of_pos (by simp [entryGathered, entryCreated])]; simpa [ingsOf] using ih
 
-theorem number_all_user (v : Nat) (as : List BAsn) (seen : List (String × Nat)) :
-    ∀ e ∈ numberAsns v as seen, ∃ a i, e = .user a i := by
-  induction as generalizing seen with
-  | nil => intro e he; simp [numberAsns] at he
-  | cons a t ih =>
-    intro e he
-    simp only [numberAsns, List.mem_cons] at he
-    rcases he with rfl | he
-    · exact ⟨_, _, rfl⟩
-    · exact ih _ e he
+theorem ingsOf_claimOrder (v : Nat) (es : List Entry) : ingsOf (claimOrder v es) = ingsOf es := by
+  unfold claimOrder
+  by_cases h : v ≥ 2
+  · simp only [h, if_true, ingsOf_append, ingsOf_filter_created, ingsOf_filter_gathered, List.nil_append]
+  · simp only [h, if_false]
 
-theorem claimOrder_all_user (v : Nat) (es : List Entry) (h : ∀ e ∈ es, ∃ a i, e = .user a i) :
-    ∀ e ∈ claimOrder v es, ∃ a i, e = .user a i := by
-  intro e he
-  unfold claimOrder at he
-  by_cases hv : v ≥ 2
-  · simp only [hv, if_true, List.mem_append, List.mem_filter] at he
-    rcases he with he | he <;> exact h e he.1
-  · simp only [hv, if_false] at he
-    exact h e he
-
-theorem entryIngs_append (l r : List Entry) : entryIngs (l ++ r) = entryIngs l ++ entryIngs r := by
-  induction l with
+theorem entryThumb_filter_created (es : List Entry) : entryThumb (es.filter entryCreated) = none := by
+  induction es with
   | nil => rfl
-  | cons e t ih => cases e <;> simp [entryIngs, ih]
+  | cons e t ih =>
+    cases e with
+    | user a i =>
+      by_cases h : a.created = true
+      · rw [List.filter_cons_of_pos (by exact h)]; simpa [entryThumb] using ih
+      · rw [List.filter_cons_of_neg (by exact h)]; exact ih
+    | archiveMeta => rw [List.filter_cons_of_pos (by simp [entryCreated])]; simpa [entryThumb] using ih
+    | thumb f b => rw [List.filter_cons_of_neg (by simp [entryCreated])]; exact ih
+    | ingredient i k => rw [List.filter_cons_of_neg (by simp [entryCreated])]; exact ih
+    | boxHash => rw [List.filter_cons_of_neg (by simp [entryCreated])]; exact ih
+    | dataHash => rw [List.filter_cons_of_neg (by simp [entryCreated])]; exact ih
 
-theorem entryIngs_map (is : List Ing) : entryIngs (is.map Entry.ingredient) = is := by
-  induction is with
+theorem entryThumb_filter_gathered (es : List Entry) :
+    entryThumb (es.filter fun e => !entryCreated e) = entryThumb es := by
+  show entryThumb (es.filter entryGathered) = _
+  induction es with
   | nil => rfl
-  | cons i t ih => simp [entryIngs, ih]
+  | cons e t ih =>
+    cases e with
+    | user a i =>
+      by_cases h : a.created = true
+      · have hg : entryGathered (.user a i) = false := by simp [entryGathered, entryCreated, h]
+        rw [List.filter_cons_of_neg (by simp [hg])]; simpa [entryThumb] using ih
+      · have hg : entryGathered (.user a i) = true := by simp [entryGathered, entryCreated, h]
+        rw [List.filter_cons_of_pos hg]; simpa [entryThumb] using ih
+    | archiveMeta => rw [List.filter_cons_of_neg (by simp [entryGathered, entryCreated])]; simpa [entryThumb] using ih
+    | thumb f b => rw [List.filter_cons_of_pos (by simp [entryGathered, entryCreated])]; simp [entryThumb]
+    | ingredient i k => rw [List.filter_cons_of_pos (by simp [entryGathered, entryCreated])]; simpa [entryThumb] using ih
+    | boxHash => rw [List.filter_cons_of_pos (by simp [entryGathered, entryCreated])]; simpa [entryThumb] using ih
+    | dataHash => rw [List.filter_cons_of_pos (by simp [entryGathered, entryCreated])]; simpa [entryThumb] using ih
 
-theorem asnsOf_ings (is : List Ing) : asnsOf (is.map Entry.ingredient) = [] := by
-  induction is with
-  | nil => rfl
-  | cons i t ih => simp [asnsOf, ih]
-
-theorem entryThumb_noThumb (l : List Entry) (h : ∀ e ∈ l, ∀ f b, e ≠ .thumb f b) :
-    entryThumb l = none := by
+theorem entryThumb_append_none (l r : List Entry) (h : entryThumb l = none) :
+    entryThumb (l ++ r) = entryThumb r := by
   induction l with
   | nil => rfl
   | cons e t ih =>
     cases e with
-    | thumb f b => exact absurd rfl (h _ (by simp) f b)
-    | _ => simp only [entryThumb]; exact ih (fun e he => h e (by simp [he]))
+    | thumb f b => simp [entryThumb] at h
+    | _ => simp only [entryThumb] at h; simpa [entryThumb] using ih h
 
-/-- every assertion label survives the report filter -/
-def WF (s : BState) : Prop := ∀ a ∈ s.assertions, keptLabel (normLabel a.label) = true
+theorem entryThumb_claimOrder (v : Nat) (es : List Entry) :
+    entryThumb (claimOrder v es) = entryThumb es := by
+  unfold claimOrder
+  by_cases h : v ≥ 2
+  · simp only [h, if_true]
+    rw [entryThumb_append_none _ _ (entryThumb_filter_created es), entryThumb_filter_gathered]
+  · simp only [h, if_false]
 
-/-- the content of a builder state (see the header) -/
-structure Content where
-  title : Option String
-  version : Nat
-  generators : List Gen
-  thumbnail : Option (String × String)
-  redactions : Option (List String)
-  ingredients : List Ing
-  assertions : List BAsn
-  alg : Option String
-  deriving DecidableEq, Repr
+theorem ingsOf_numberIngs (X : List IngA) (k : Nat) : ingsOf (numberIngs X k) = idxFrom X k := by
+  induction X generalizing k with
+  | nil => rfl
+  | cons a t ih => simp [numberIngs, ingsOf, idxFrom, ih]
 
-def content (s : BState) : Content :=
-  { title := s.title, version := s.v, generators := markGens s.generators
-    thumbnail := s.thumbnail, redactions := s.redactions, ingredients := s.ingredients
-    assertions := asnOrder s.v (s.assertions.map (norm s.v)), alg := s.hashAlg }
+theorem usersOf_numberIngs (X : List IngA) (k : Nat) : usersOf (numberIngs X k) = [] := by
+  induction X generalizing k with
+  | nil => rfl
+  | cons a t ih => simp [numberIngs, usersOf, ih]
 
-/-- `content` is the model's signing input with the instance numbers dropped -/
-theorem content_of_signInput (s : BState) :
-    content s = { title := (signInput s).title, version := (signInput s).version
-                  generators := (signInput s).generators, thumbnail := (signInput s).thumbnail
-                  redactions := (signInput s).redactions, ingredients := (signInput s).ingredients
-                  assertions := asnsOf (signInput s).assertions, alg := (signInput s).alg } := by
-  unfold content signInput
-  simp only [asnsOf_claimOrder, asnsOf_number]
+theorem entryThumb_numberIngs (X : List IngA) (k : Nat) : entryThumb (numberIngs X k) = none := by
+  induction X generalizing k with
+  | nil => rfl
+  | cons a t ih => simp [numberIngs, entryThumb, ih]
 
-/-- the restored record, field by field -/
-theorem decode_encode (s : BState) (g : String) (hwf : WF s) :
-    decode (encode s g) =
-      { title := s.title
-        format := if s.v ≥ 2 then "" else s.format
-        version := match claimLabel s g with | .gen true _ _ => some 1 | _ => none
-        label := some (claimLabel s g)
-        vendor := match claimLabel s g with | .gen _ v _ => v | .other _ => none
-        generators := markGens s.generators
-        thumbnail := s.thumbnail
-        redactions := s.redactions
-        ingredients := s.ingredients
-        assertions := asnOrder s.v (s.assertions.map (norm s.v))
-        hashAlg := none
-        instanceId := s.instanceId } := by
-  have huser := claimOrder_all_user s.v _ (number_all_user s.v s.assertions [])
-  unfold decode encode
-  simp only
-  congr 1
-  · split <;> simp
-  · -- thumbnail
-    cases ht : s.thumbnail with
+theorem ingsOf_numberAsns (as : List BAsn) (seen : List (String × Nat)) :
+    ingsOf (numberAsns as seen) = [] := by
+  induction as generalizing seen with
+  | nil => rfl
+  | cons a t ih => simp [numberAsns, ingsOf, ih]
+
+theorem entryThumb_numberAsns (as : List BAsn) (seen : List (String × Nat)) :
+    entryThumb (numberAsns as seen) = none := by
+  induction as generalizing seen with
+  | nil => rfl
+  | cons a t ih => simp [numberAsns, entryThumb, ih]
+
+theorem entryIngs_eq (v : Nat) (mans : List Man) (es : List Entry) :
+    entryIngs v mans es = (ingsOf es).map (fun p => decodeIng v mans p.1 p.2) := by
+  induction es with
+  | nil => rfl
+  | cons e t ih => cases e <;> simp [entryIngs, ingsOf, ih]
+
+/-- an ingredient assertion as reported -/
+def repIng (v : Nat) (p : IngA × Nat) : IngR :=
+  { title := p.1.title, format := p.1.format, rel := p.1.rel, iid := p.1.iid, label := (ingLabel v, p.2)
+    active := p.1.active, results := p.1.results, status := p.1.status
+    thumb := p.1.thumb.map (locImg p.1.active) }
+
+theorem reportIngs_eq (v : Nat) (es : List Entry) : reportIngs v es = (ingsOf es).map (repIng v) := by
+  induction es with
+  | nil => rfl
+  | cons e t ih => cases e <;> simp [reportIngs, ingsOf, repIng, ih]
+
+theorem decodeEntries_eq (es : List Entry) :
+    decodeEntries es = ((usersOf es).filter (fun q => keptLabel q.1.label)).map (fun q => fix q.1) := by
+  induction es with
+  | nil => rfl
+  | cons e t ih =>
+    cases e with
+    | user a i =>
+      simp only [decodeEntries, usersOf, List.filter_cons]
+      cases keptLabel a.label <;> simp [ih, fix]
+    | _ => simp [decodeEntries, usersOf, ih]
+
+theorem reportAsns_eq (es : List Entry) :
+    reportAsns es = ((usersOf es).filter (fun q => shownLabel q.1.label)).map fixP := by
+  induction es with
+  | nil => rfl
+  | cons e t ih =>
+    cases e with
+    | user a i =>
+      simp only [reportAsns, usersOf, List.filter_cons]
+      cases shownLabel a.label <;> simp [ih, fix, fixP]
+    | _ => simp [reportAsns, usersOf, ih]
+
+/-! ### the walk over an ingredient's manifests -/
+
+/-- every collected manifest is the one the store holds under its label -/
+def Looked (st acc : List Man) : Prop := ∀ x ∈ acc, findMan st x.label = some x
+
+theorem findMan_some {st : List Man} {l : String} {m : Man} (h : findMan st l = some m) :
+    m.label = l ∧ m ∈ st := by
+  unfold findMan at h
+  have h1 := List.find?_some h
+  have h2 := List.mem_of_find?_eq_some h
+  exact ⟨by simpa using h1, h2⟩
+
+theorem collect_looked (st : List Man) : ∀ (fuel : Nat) (ls : List String) (acc : List Man),
+    Looked st acc → Looked st (collect st fuel ls acc) := by
+  intro fuel
+  induction fuel with
+  | zero => intro ls acc h; simpa [collect] using h
+  | succ n ih =>
+    intro ls
+    induction ls with
+    | nil => intro acc h; simpa [collect] using h
+    | cons l t iht =>
+      intro acc h
+      simp only [collect, List.foldl_cons]
+      have step : Looked st (if acc.any (fun m => m.label == l) then acc
+          else match findMan st l with
+            | none => acc
+            | some m =>
+              if (collect st n (m.links.map (·.2)) acc).any (fun x => x.label == l)
+              then collect st n (m.links.map (·.2)) acc
+              else collect st n (m.links.map (·.2)) acc ++ [m]) := by
+        by_cases hany : acc.any (fun m => m.label == l) = true
+        · simp only [hany, if_true]; exact h
+        · simp only [hany, Bool.false_eq_true, if_false]
+          cases hf : findMan st l with
+          | none => exact h
+          | some m =>
+            have h' := ih (m.links.map (·.2)) acc h
+            simp only
+            by_cases hany' : (collect st n (m.links.map (·.2)) acc).any (fun x => x.label == l) = true
+            · simp only [hany', if_true]; exact h'
+            · simp only [hany', Bool.false_eq_true, if_false]
+              intro x hx
+              rcases List.mem_append.1 hx with hx | hx
+              · exact h' x hx
+              · have : x = m := by simpa using hx
+                subst this
+                rw [(findMan_some hf).1]; exact hf
+      have := iht _ step
+      simp only [collect] at this
+      exact this
+
+/-- the walk from `a` keeps the manifest the store holds under `a` -/
+theorem findMan_flat_root (st : List Man) (a : String) (m : Man) (h : findMan st a = some m) :
+    findMan (flatStore st a) a = some m := by
+  unfold flatStore
+  simp only [collect, List.foldl_cons, List.foldl_nil, List.any_nil, Bool.false_eq_true, if_false, h]
+  have hl : Looked st (collect st st.length (m.links.map (·.2)) []) :=
+    collect_looked st _ _ _ (fun x hx => by simp at hx)
+  by_cases hany : (collect st st.length (m.links.map (·.2)) []).any (fun x => x.label == a) = true
+  · simp only [hany, if_true]
+    cases hf : findMan (collect st st.length (m.links.map (·.2)) []) a with
     | none =>
-      simp only [List.nil_append]
-      apply entryThumb_noThumb
-      intro e he f b
-      simp only [List.mem_append, List.mem_map, List.mem_cons, List.mem_nil_iff, or_false] at he
-      rcases he with (⟨i, _, rfl⟩ | he) | rfl | rfl
-      · intro h; cases h
-      · obtain ⟨a, i, rfl⟩ := huser e he
-        intro h; cases h
-      · intro h; cases h
-      · intro h; cases h
-    | some fb => obtain ⟨f, b⟩ := fb; rfl
-  · -- ingredients
-    simp only [entryIngs_append, entryIngs_map, entryIngs_eq_nil_of_user _ huser]
-    cases s.thumbnail with
-    | none => simp [entryIngs]
-    | some fb => simp [entryIngs]
-  · -- assertions
-    rw [decodeEntries_eq]
-    have hkept : (asnOrder s.v (s.assertions.map (norm s.v))).filter (fun a => keptLabel a.label) =
-        asnOrder s.v (s.assertions.map (norm s.v)) := by
-      apply List.filter_eq_self.2
-      intro a ha
-      have : a ∈ s.assertions.map (norm s.v) := by
-        unfold asnOrder at ha
-        by_cases hv : s.v ≥ 2
-        · simp only [hv, if_true, List.mem_append, List.mem_filter] at ha
-          rcases ha with ha | ha <;> exact ha.1
-        · simp only [hv, if_false] at ha; exact ha
-      obtain ⟨b, hb, rfl⟩ := List.mem_map.1 this
-      exact hwf b hb
-    cases s.thumbnail with
-    | none =>
-      simp only [List.nil_append, asnsOf_append, asnsOf_ings, asnsOf_claimOrder, asnsOf_number,
-        asnsOf, List.append_nil]
-      exact hkept
-    | some fb =>
-      simp only [asnsOf_append, asnsOf_ings, asnsOf_claimOrder, asnsOf_number, asnsOf,
-        List.append_nil, List.nil_append]
-      exact hkept
+      exfalso
+      unfold findMan at hf
+      rw [List.find?_eq_none] at hf
+      obtain ⟨x, hx, hxa⟩ := List.any_eq_true.1 hany
+      exact hf x hx hxa
+    | some x =>
+      obtain ⟨hxl, hxm⟩ := findMan_some hf
+      have := hl x hxm
+      rw [hxl, h] at this
+      exact this.symm ▸ rfl
+  · simp only [hany, Bool.false_eq_true, if_false]
+    unfold findMan
+    rw [List.find?_append]
+    have hnone : (collect st st.length (m.links.map (·.2)) []).find? (fun x => x.label == a) = none := by
+      rw [List.find?_eq_none]
+      intro x hx hxa
+      exact hany (List.any_eq_true.2 ⟨x, hx, hxa⟩)
+    rw [hnone]
+    simp [(findMan_some h).1]
 
-theorem filter_created_order (v : Nat) (l : List BAsn) :
-    asnOrder v (asnOrder v l) = asnOrder v l := by
+/-! ### one ingredient through a save/restore step -/
+
+/-- `load_ingredient_to_claim` accepts the ingredient: it has no manifest store, or its active
+manifest is in the store and not of a newer claim version than the builder's -/
+def IngLoad (v : Nat) (i : Ing) : Prop := i.store = [] ∨ ∃ m, activeMan i = some m ∧ m.v ≤ v
+
+/-- the thumbnail of a manifest-carrying ingredient survives the step: a plain resource never
+does (`user_ingredient_thumbnail_replaced`), a hash-less reference to the ingredient's own claim
+thumbnail only in a version-2 claim whose ingredient validated and has that thumbnail
+(`v1_ingredient_thumbnail_lost`) -/
+def ThumbOK (v : Nat) (i : Ing) : Prop :=
+  i.store = [] ∨
+    match i.thumb with
+    | some (.res _) => False
+    | some (.own false) => v ≥ 2 ∧ isValid i = true ∧ ∀ m, activeMan i = some m → m.thumb = true
+    | _ => True
+
+theorem activeMan_label {i : Ing} {m : Man} (h : activeMan i = some m) : i.active = some m.label := by
+  unfold activeMan at h
+  cases ha : i.active with
+  | none => simp [ha] at h
+  | some a =>
+    simp only [ha] at h
+    rw [(findMan_some h).1]
+
+theorem findMan_nil (l : String) : findMan [] l = none := rfl
+
+theorem activeMan_nil {i : Ing} (h : i.store = []) : activeMan i = none := by
+  unfold activeMan
+  cases i.active <;> simp [h, findMan_nil]
+
+theorem flatStore_ne_nil (st : List Man) (a : String) (m : Man) (h : findMan st a = some m) :
+    flatStore st a ≠ [] := by
+  intro hnil
+  have := findMan_flat_root st a m h
+  rw [hnil] at this
+  simp [findMan_nil] at this
+
+/-- `thumbLoc` as a function of the fields it reads -/
+def thumbLocF (v : Nat) (th : Option TRef) (act : Option String) (emp : Bool) (base : Option TLoc) :
+    Option TLoc :=
+  match th with
+  | none => base
+  | some (.res img) => some (rehome v img)
+  | some (.own true) => some .ownClaim
+  | some (.own false) => some (rehome v (ownImg (act.getD "")))
+  | some (.outer img) => if emp then some (rehome v img) else base
+
+theorem thumbLoc_eq (v : Nat) (i : Ing) :
+    thumbLoc v i = thumbLocF v i.thumb i.active i.store.isEmpty (baseThumb i) := by
+  unfold thumbLoc thumbLocF
+  cases i.thumb with
+  | none => rfl
+  | some t => cases t with
+    | res img => rfl
+    | own h => cases h <;> rfl
+    | outer img => rfl
+
+/-- `from_ingredient_uri` on the thumbnail reference -/
+def decT : Option TLoc → Option TRef
+  | none => none
+  | some .ownClaim => some (.own false)
+  | some (.databox img) => some (.outer img)
+  | some (.ingThumb img) => some (.outer img)
+
+def baseOf (valid mt : Bool) : Option TLoc := if valid && mt then some .ownClaim else none
+
+/-- thumbnails of an ingredient without manifest store: any reference survives -/
+theorem thumb_step_nostore (v : Nat) (th : Option TRef) (act : Option String) :
+    (thumbLocF v (decT (thumbLocF v th act true none)) none true none).map (locImg none) =
+      (thumbLocF v th act true none).map (locImg none) ∨ act ≠ none := by
+  cases act with
+  | some a => right; simp
+  | none =>
+    left
+    cases th with
+    | none => rfl
+    | some t =>
+      cases t with
+      | res img => by_cases hv : v < 2 <;> simp [thumbLocF, decT, rehome, hv, locImg]
+      | own h => cases h <;> by_cases hv : v < 2 <;> simp [thumbLocF, decT, rehome, hv, locImg]
+      | outer img => by_cases hv : v < 2 <;> simp [thumbLocF, decT, rehome, hv, locImg]
+
+/-- thumbnails of a manifest-carrying ingredient with active manifest `l` -/
+theorem thumb_step_store (v : Nat) (th : Option TRef) (l : String) (valid mt : Bool)
+    (hok : match th with
+      | some (.res _) => False
+      | some (.own false) => v ≥ 2 ∧ valid = true ∧ mt = true
+      | _ => True) :
+    (thumbLocF v (decT (thumbLocF v th (some l) false (baseOf valid mt))) (some l) false
+        (baseOf (decide (v ≥ 2) && valid) mt)).map (locImg (some l)) =
+      (thumbLocF v th (some l) false (baseOf valid mt)).map (locImg (some l)) := by
+  cases th with
+  | none =>
+    cases valid <;> cases mt <;> by_cases hv : v < 2 <;>
+      simp [thumbLocF, decT, baseOf, rehome, hv, locImg]
+  | some t =>
+    cases t with
+    | res img => exact absurd hok id
+    | own h =>
+      cases h with
+      | true => by_cases hv : v < 2 <;> simp [thumbLocF, decT, rehome, hv, locImg]
+      | false =>
+        obtain ⟨hv2, rfl, rfl⟩ := hok
+        have hv : ¬ v < 2 := by omega
+        simp [thumbLocF, decT, baseOf, rehome, hv, locImg, hv2]
+    | outer img =>
+      cases valid <;> cases mt <;> by_cases hv : v < 2 <;>
+        simp [thumbLocF, decT, baseOf, rehome, hv, locImg]
+
+theorem decodeIng_thumb (v : Nat) (mans : List Man) (a : IngA) (k : Nat) :
+    (decodeIng v mans a k).thumb = decT a.thumb := by
+  unfold decodeIng decT
+  cases a.thumb with
+  | none => rfl
+  | some t => cases t <;> rfl
+
+/-- **One ingredient, one step**: what the restored builder writes for the ingredient is
+reported like what the original writes — title, format, relationship, instance id, active
+manifest, validation results (version-2 claim) / validation status (version-1 claim) and the
+image the thumbnail resolves to — and the restored ingredient is accepted again. `mans` is the
+archive's manifest collection; `hlook` says it holds the ingredient's active manifest. -/
+theorem ing_step (v : Nat) (mans : List Man) (i : Ing) (k : Nat) (hload : IngLoad v i)
+    (hth : ThumbOK v i) (hlook : ∀ m, activeMan i = some m → findMan mans m.label = some m) :
+    repIng v (ingAssertion v (decodeIng v mans (ingAssertion v i) k), k) = repIng v (ingAssertion v i, k) ∧
+      IngLoad v (decodeIng v mans (ingAssertion v i) k) := by
+  have hres : (decodeIng v mans (ingAssertion v i) k).results = (if v ≥ 2 then i.results else none) := rfl
+  have hsta : (decodeIng v mans (ingAssertion v i) k).status = (if v ≥ 2 then [] else i.status) := rfl
+  have e1 : (if v ≥ 2 then (decodeIng v mans (ingAssertion v i) k).results else none) =
+      (if v ≥ 2 then i.results else none) := by rw [hres]; by_cases hv : v ≥ 2 <;> simp [hv]
+  have e2 : (if v ≥ 2 then [] else (decodeIng v mans (ingAssertion v i) k).status) =
+      (if v ≥ 2 then [] else i.status) := by rw [hsta]; by_cases hv : v ≥ 2 <;> simp [hv]
+  have hthumb : (decodeIng v mans (ingAssertion v i) k).thumb = decT (thumbLoc v i) :=
+    decodeIng_thumb v mans _ k
+  rcases hload with hnil | ⟨m, hm, hmv⟩
+  · -- no manifest store
+    have ham : activeMan i = none := activeMan_nil hnil
+    have hbase : baseThumb i = none := by simp [baseThumb, ham]
+    have hst : (decodeIng v mans (ingAssertion v i) k).store = [] := by
+      simp [decodeIng, ingAssertion, ham]
+    have hact' : (decodeIng v mans (ingAssertion v i) k).active = none := by
+      simp [decodeIng, ingAssertion, ham]
+    have ham' : activeMan (decodeIng v mans (ingAssertion v i) k) = none := activeMan_nil hst
+    have hbase' : baseThumb (decodeIng v mans (ingAssertion v i) k) = none := by simp [baseThumb, ham']
+    refine ⟨?_, Or.inl hst⟩
+    have e3 : (thumbLoc v (decodeIng v mans (ingAssertion v i) k)).map (locImg none) =
+        (thumbLoc v i).map (locImg none) := by
+      rw [thumbLoc_eq v (decodeIng v mans (ingAssertion v i) k), hthumb, hact', hst, hbase', thumbLoc_eq v i, hbase, hnil]
+      -- the original may name an `active_manifest` without carrying its store: that field is
+      -- not written (`active` of the assertion comes from the store), so it plays no role
+      cases hia : i.active with
+      | none => rcases thumb_step_nostore v i.thumb none with h | h
+                · simpa using h
+                · exact absurd rfl h
+      | some a =>
+        cases hti : i.thumb with
+        | none => rfl
+        | some t =>
+          cases t with
+          | res img => by_cases hv : v < 2 <;> simp [thumbLocF, decT, rehome, hv, locImg]
+          | own h => cases h <;> by_cases hv : v < 2 <;> simp [thumbLocF, decT, rehome, hv, locImg]
+          | outer img => by_cases hv : v < 2 <;> simp [thumbLocF, decT, rehome, hv, locImg]
+    have hA : (ingAssertion v (decodeIng v mans (ingAssertion v i) k)).active = (ingAssertion v i).active := by
+      show (activeMan (decodeIng v mans (ingAssertion v i) k)).map (·.label) = (activeMan i).map (·.label)
+      rw [ham', ham]
+    have hA0 : (ingAssertion v i).active = none := by simp only [ingAssertion, ham, Option.map_none]
+    have hT : (thumbLoc v (decodeIng v mans (ingAssertion v i) k)).map
+        (locImg (ingAssertion v (decodeIng v mans (ingAssertion v i) k)).active) =
+        (thumbLoc v i).map (locImg (ingAssertion v i).active) := by
+      rw [hA, hA0]
+      exact e3
+    unfold repIng
+    congr 1
+    all_goals first | rfl | exact hA | exact e1 | exact e2 | exact hT
+  · -- manifest store present
+    have hact : i.active = some m.label := activeMan_label hm
+    have hne : i.store ≠ [] := by
+      intro h; rw [activeMan_nil h] at hm; cases hm
+    have hemp : i.store.isEmpty = false := by
+      cases hs : i.store with
+      | nil => exact absurd hs hne
+      | cons _ _ => rfl
+    have hfm : findMan mans m.label = some m := hlook m hm
+    have hst : (decodeIng v mans (ingAssertion v i) k).store = flatStore mans m.label := by
+      simp [decodeIng, ingAssertion, hm]
+    have hact' : (decodeIng v mans (ingAssertion v i) k).active = some m.label := by
+      simp [decodeIng, ingAssertion, hm]
+    have ham' : activeMan (decodeIng v mans (ingAssertion v i) k) = some m := by
+      unfold activeMan
+      rw [hact', hst]
+      exact findMan_flat_root mans m.label m hfm
+    have hemp' : (decodeIng v mans (ingAssertion v i) k).store.isEmpty = false := by
+      rw [hst]
+      cases hs : flatStore mans m.label with
+      | nil => exact absurd hs (flatStore_ne_nil mans m.label m hfm)
+      | cons _ _ => rfl
+    refine ⟨?_, Or.inr ⟨m, ham', hmv⟩⟩
+    have hbase : baseThumb i = baseOf (isValid i) m.thumb := by
+      simp [baseThumb, hm, baseOf]
+    have hval' : isValid (decodeIng v mans (ingAssertion v i) k) = (decide (v ≥ 2) && isValid i) := by
+      unfold isValid
+      rw [hres]
+      by_cases hv : v ≥ 2 <;> simp [hv]
+    have hbase' : baseThumb (decodeIng v mans (ingAssertion v i) k) =
+        baseOf (decide (v ≥ 2) && isValid i) m.thumb := by
+      simp [baseThumb, ham', hval', baseOf]
+    have e3 : (thumbLoc v (decodeIng v mans (ingAssertion v i) k)).map (locImg (some m.label)) =
+        (thumbLoc v i).map (locImg (some m.label)) := by
+      rw [thumbLoc_eq v (decodeIng v mans (ingAssertion v i) k), hthumb, hact', hemp', hbase',
+        thumbLoc_eq v i, hbase, hemp, hact]
+      apply thumb_step_store
+      rcases hth with h | hth
+      · exact absurd h hne
+      · cases hti : i.thumb with
+        | none => trivial
+        | some t =>
+          cases t with
+          | res img => simp [hti] at hth
+          | own hsh =>
+            cases hsh with
+            | true => trivial
+            | false =>
+              simp only [hti] at hth
+              exact ⟨hth.1, hth.2.1, hth.2.2 m hm⟩
+          | outer img => trivial
+    have hA : (ingAssertion v (decodeIng v mans (ingAssertion v i) k)).active = (ingAssertion v i).active := by
+      show (activeMan (decodeIng v mans (ingAssertion v i) k)).map (·.label) = (activeMan i).map (·.label)
+      rw [ham', hm]
+    have hA0 : (ingAssertion v i).active = some m.label := by simp only [ingAssertion, hm, Option.map_some]
+    have hT : (thumbLoc v (decodeIng v mans (ingAssertion v i) k)).map
+        (locImg (ingAssertion v (decodeIng v mans (ingAssertion v i) k)).active) =
+        (thumbLoc v i).map (locImg (ingAssertion v i).active) := by
+      rw [hA, hA0]
+      exact e3
+    unfold repIng
+    congr 1
+    all_goals first | rfl | exact hA | exact e1 | exact e2 | exact hT
+
+/-! ### the manifests a claim carries -/
+
+def unionFrom (ms : List Man) (ings : List Ing) : List Man :=
+  ings.foldl (fun ms i => i.store.foldl upsert ms) ms
+
+/-- the manifests `to_claim` collects from the ingredients -/
+def unionStores (ings : List Ing) : List Man := unionFrom [] ings
+
+def SameSet (a b : List Man) : Prop := ∀ m, m ∈ a ↔ m ∈ b
+
+/-- no two different manifests under one label -/
+def Uniq (ms : List Man) : Prop := ∀ x ∈ ms, ∀ y ∈ ms, x.label = y.label → x = y
+
+/-- the ingredients' stores do not hold different manifests under one label -/
+def Consistent (ings : List Ing) : Prop :=
+  ∀ i ∈ ings, ∀ j ∈ ings, ∀ x ∈ i.store, ∀ y ∈ j.store, x.label = y.label → x = y
+
+theorem upsert_mem (ms : List Man) (m : Man) (hc : ∀ x ∈ ms, x.label = m.label → x = m) (y : Man) :
+    y ∈ upsert ms m ↔ y ∈ ms ∨ y = m := by
+  unfold upsert
+  by_cases hany : ms.any (fun x => x.label == m.label) = true
+  · simp only [hany, if_true]
+    have hid : ms.map (fun x => if x.label == m.label then m else x) = ms := by
+      conv => rhs; rw [← List.map_id ms]
+      apply List.map_congr_left
+      intro x hx
+      by_cases hl : (x.label == m.label) = true
+      · simp [hl, hc x hx (by simpa using hl)]
+      · simp [hl]
+    rw [hid]
+    obtain ⟨x, hx, hxl⟩ := List.any_eq_true.1 hany
+    have : x = m := hc x hx (by simpa using hxl)
+    subst this
+    constructor
+    · intro h; exact Or.inl h
+    · rintro (h | rfl)
+      · exact h
+      · exact hx
+  · simp only [hany, Bool.false_eq_true, if_false, List.mem_append, List.mem_singleton]
+
+theorem foldl_upsert_mem (st ms : List Man)
+    (hc : ∀ x, x ∈ ms ∨ x ∈ st → ∀ y, y ∈ ms ∨ y ∈ st → x.label = y.label → x = y) (y : Man) :
+    y ∈ st.foldl upsert ms ↔ y ∈ ms ∨ y ∈ st := by
+  induction st generalizing ms with
+  | nil => simp
+  | cons m t ih =>
+    simp only [List.foldl_cons]
+    have hm : ∀ z, z ∈ upsert ms m ↔ z ∈ ms ∨ z = m :=
+      upsert_mem ms m (fun x hx hl => hc x (Or.inl hx) m (Or.inr (by simp)) hl)
+    rw [ih (upsert ms m) (by
+      intro x hx z hz hl
+      apply hc x _ z _ hl
+      · rcases hx with hx | hx
+        · rcases (hm x).1 hx with h | rfl
+          · exact Or.inl h
+          · exact Or.inr (by simp)
+        · exact Or.inr (by simp [hx])
+      · rcases hz with hz | hz
+        · rcases (hm z).1 hz with h | rfl
+          · exact Or.inl h
+          · exact Or.inr (by simp)
+        · exact Or.inr (by simp [hz]))]
+    rw [hm y]
+    simp only [List.mem_cons]
+    constructor
+    · rintro ((h | h) | h)
+      · exact Or.inl h
+      · exact Or.inr (Or.inl h)
+      · exact Or.inr (Or.inr h)
+    · rintro (h | h | h)
+      · exact Or.inl (Or.inl h)
+      · exact Or.inl (Or.inr h)
+      · exact Or.inr h
+
+theorem unionFrom_mem (ings : List Ing) (ms : List Man)
+    (hc : ∀ x, (x ∈ ms ∨ ∃ i ∈ ings, x ∈ i.store) → ∀ y, (y ∈ ms ∨ ∃ i ∈ ings, y ∈ i.store) →
+      x.label = y.label → x = y) (y : Man) :
+    y ∈ unionFrom ms ings ↔ y ∈ ms ∨ ∃ i ∈ ings, y ∈ i.store := by
+  induction ings generalizing ms with
+  | nil => simp [unionFrom]
+  | cons i t ih =>
+    have hstep : ∀ z, z ∈ i.store.foldl upsert ms ↔ z ∈ ms ∨ z ∈ i.store :=
+      foldl_upsert_mem i.store ms (by
+        intro x hx z hz hl
+        apply hc x _ z _ hl
+        · rcases hx with h | h
+          · exact Or.inl h
+          · exact Or.inr ⟨i, by simp, h⟩
+        · rcases hz with h | h
+          · exact Or.inl h
+          · exact Or.inr ⟨i, by simp, h⟩)
+    show y ∈ unionFrom (i.store.foldl upsert ms) t ↔ _
+    rw [ih (i.store.foldl upsert ms) (by
+      intro x hx z hz hl
+      apply hc x _ z _ hl
+      · rcases hx with h | ⟨j, hj, h⟩
+        · rcases (hstep x).1 h with h | h
+          · exact Or.inl h
+          · exact Or.inr ⟨i, by simp, h⟩
+        · exact Or.inr ⟨j, by simp [hj], h⟩
+      · rcases hz with h | ⟨j, hj, h⟩
+        · rcases (hstep z).1 h with h | h
+          · exact Or.inl h
+          · exact Or.inr ⟨i, by simp, h⟩
+        · exact Or.inr ⟨j, by simp [hj], h⟩)]
+    rw [hstep y]
+    constructor
+    · rintro ((h | h) | ⟨j, hj, h⟩)
+      · exact Or.inl h
+      · exact Or.inr ⟨i, by simp, h⟩
+      · exact Or.inr ⟨j, by simp [hj], h⟩
+    · rintro (h | ⟨j, hj, h⟩)
+      · exact Or.inl (Or.inl h)
+      · rcases List.mem_cons.1 hj with rfl | hj
+        · exact Or.inl (Or.inr h)
+        · exact Or.inr ⟨j, hj, h⟩
+
+/-- with consistent stores, the claim carries exactly the manifests of its ingredients' stores -/
+theorem unionStores_mem (ings : List Ing) (hc : Consistent ings) (y : Man) :
+    y ∈ unionStores ings ↔ ∃ i ∈ ings, y ∈ i.store := by
+  unfold unionStores
+  rw [unionFrom_mem ings [] (by
+    intro x hx z hz hl
+    rcases hx with h | ⟨i, hi, hx⟩
+    · simp at h
+    · rcases hz with h | ⟨j, hj, hz⟩
+      · simp at h
+      · exact hc i hi j hj x hx z hz hl)]
+  simp
+
+/-- the claim's collection holds an ingredient's active manifest under its label -/
+theorem look_of_consistent (ings : List Ing) (hc : Consistent ings) (i : Ing) (hi : i ∈ ings)
+    (m : Man) (hm : activeMan i = some m) : findMan (unionStores ings) m.label = some m := by
+  have hact := activeMan_label hm
+  have hmem : m ∈ i.store := by
+    unfold activeMan at hm
+    rw [hact] at hm
+    exact (findMan_some hm).2
+  have hmu : m ∈ unionStores ings := (unionStores_mem ings hc m).2 ⟨i, hi, hmem⟩
+  cases hf : findMan (unionStores ings) m.label with
+  | none =>
+    exfalso
+    unfold findMan at hf
+    rw [List.find?_eq_none] at hf
+    exact hf m hmu (by simp)
+  | some x =>
+    obtain ⟨hxl, hxm⟩ := findMan_some hf
+    obtain ⟨j, hj, hxj⟩ := (unionStores_mem ings hc x).1 hxm
+    rw [hc j hj i hi x hxj m hmem hxl]
+
+/-! ### `to_claim` on a well-formed state -/
+
+theorem loadIngredient_ok (v : Nat) (ms : List Man) (i : Ing) (h : IngLoad v i) :
+    loadIngredient v [] ms i = .ok (i.store, []) := by
+  unfold loadIngredient dropConflicts
+  rcases h with h | ⟨m, hm, hmv⟩
+  · simp [h]
+  · have hne : i.store ≠ [] := by
+      intro h; rw [activeMan_nil h] at hm; cases hm
+    have hemp : i.store.isEmpty = false := by
+      cases hs : i.store with
+      | nil => exact absurd hs hne
+      | cons _ _ => rfl
+    have : ¬ v < m.v := by omega
+    simp [hemp, hm, this, applyReds]
+
+theorem addIngredients_ok (v : Nat) (ings : List Ing) (ms : List Man) (ap : List Red)
+    (h : ∀ i ∈ ings, IngLoad v i) :
+    addIngredients v [] ings ms ap = .ok (ings.map (ingAssertion v), unionFrom ms ings, ap) := by
+  induction ings generalizing ms ap with
+  | nil => rfl
+  | cons i t ih =>
+    simp only [addIngredients, loadIngredient_ok v ms i (h i (by simp)), List.append_nil]
+    rw [ih _ _ (fun j hj => h j (by simp [hj]))]
+    rfl
+
+def thumbEntries (s : BState) : List Entry :=
+  match s.thumbnail with
+  | some (f, b) => if f == "none" then [] else [Entry.thumb f b]
+  | none => []
+
+/-- the claim `to_claim` builds when nothing fails and nothing is redacted; `L` is the assertion
+list after the settings / intent step -/
+def claimOf (s : BState) (g : String) (L : List BAsn) : Claim :=
+  { label := claimLabel s g
+    version := s.v
+    title := s.title
+    format := some s.format
+    instanceId := s.instanceId
+    generators := markGens s.generators
+    redactions := []
+    alg := s.hashAlg
+    entries := thumbEntries s ++ numberIngs (s.ingredients.map (ingAssertion s.v)) 0 ++
+      numberAsns (L.map (norm s.v)) []
+    manifests := unionStores s.ingredients
+    remote := s.remoteUrl
+    embedded := !s.noEmbed
+    update := s.intent == some .update }
+
+theorem toClaim_ok (cfg : Cfg) (s : BState) (g : String) (L : List BAsn) (hred : s.redactions = none)
+    (hload : ∀ i ∈ s.ingredients, IngLoad s.v i)
+    (hprep : prepAsns cfg s.intent (hasParent s) s.assertions = .ok L) :
+    toClaim cfg s g = .ok (claimOf s g L) := by
+  unfold toClaim
+  simp only [hred, Option.getD_none, addIngredients_ok s.v s.ingredients [] [] hload, List.any_nil,
+    Bool.false_eq_true, if_false, hprep]
+  rfl
+
+theorem usersOf_thumbEntries (s : BState) : usersOf (thumbEntries s) = [] := by
+  unfold thumbEntries
+  cases s.thumbnail with
+  | none => rfl
+  | some fb => obtain ⟨f, b⟩ := fb; by_cases h : (f == "none") = true <;> simp [h, usersOf]
+
+theorem ingsOf_thumbEntries (s : BState) : ingsOf (thumbEntries s) = [] := by
+  unfold thumbEntries
+  cases s.thumbnail with
+  | none => rfl
+  | some fb => obtain ⟨f, b⟩ := fb; by_cases h : (f == "none") = true <;> simp [h, ingsOf]
+
+/-- the three projections of the entries of `claimOf`, followed by bookkeeping entries `X` -/
+theorem proj_users (s : BState) (Y : List BAsn) (X : List Entry) (hX : usersOf X = []) :
+    usersOf (claimOrder s.v (thumbEntries s ++ numberIngs (s.ingredients.map (ingAssertion s.v)) 0 ++
+      numberAsns Y [] ++ X)) = pairOrder s.v (numP Y []) := by
+  rw [usersOf_claimOrder]
+  simp only [usersOf_append, usersOf_thumbEntries, usersOf_numberIngs, usersOf_number, hX,
+    List.nil_append, List.append_nil]
+
+theorem proj_ings (s : BState) (Y : List BAsn) (X : List Entry) (hX : ingsOf X = []) :
+    ingsOf (claimOrder s.v (thumbEntries s ++ numberIngs (s.ingredients.map (ingAssertion s.v)) 0 ++
+      numberAsns Y [] ++ X)) = idxFrom (s.ingredients.map (ingAssertion s.v)) 0 := by
+  rw [ingsOf_claimOrder]
+  simp only [ingsOf_append, ingsOf_thumbEntries, ingsOf_numberIngs, ingsOf_numberAsns, hX,
+    List.nil_append, List.append_nil]
+
+theorem proj_thumb (s : BState) (Y : List BAsn) (X : List Entry) (hX : entryThumb X = none) :
+    entryThumb (claimOrder s.v (thumbEntries s ++ numberIngs (s.ingredients.map (ingAssertion s.v)) 0 ++
+      numberAsns Y [] ++ X)) = entryThumb (thumbEntries s) := by
+  rw [entryThumb_claimOrder]
+  have hrest : entryThumb (numberIngs (s.ingredients.map (ingAssertion s.v)) 0 ++ numberAsns Y [] ++ X) = none := by
+    rw [List.append_assoc, entryThumb_append_none _ _ (entryThumb_numberIngs _ _),
+      entryThumb_append_none _ _ (entryThumb_numberAsns _ _), hX]
+  unfold thumbEntries
+  cases s.thumbnail with
+  | none => simpa [entryThumb] using hrest
+  | some fb =>
+    obtain ⟨f, b⟩ := fb
+    by_cases h : (f == "none") = true
+    · simpa [h, entryThumb] using hrest
+    · simp [h, entryThumb]
+
+theorem pairOrder_mem {v : Nat} {P : List (BAsn × Nat)} {q : BAsn × Nat} (h : q ∈ pairOrder v P) : q ∈ P := by
+  unfold pairOrder at h
+  by_cases hv : v ≥ 2
+  · simp only [hv, if_true, List.mem_append, List.mem_filter] at h
+    rcases h with h | h <;> exact h.1
+  · simpa [hv] using h
+
+theorem asnOrder_map (v : Nat) (f : BAsn → BAsn) (hf : ∀ a, (f a).created = a.created) (Y : List BAsn) :
+    asnOrder v (Y.map f) = (asnOrder v Y).map f := by
   unfold asnOrder
   by_cases hv : v ≥ 2
-  · simp only [hv, if_true]
-    have hA : ∀ a ∈ l.filter (·.created), a.created = true := fun a ha => (List.mem_filter.1 ha).2
-    have hB : ∀ a ∈ l.filter (fun a => !a.created), a.created = false := by
-      intro a ha
-      have := (List.mem_filter.1 ha).2
-      simpa using this
-    have e1 : (l.filter (·.created)).filter (·.created) = l.filter (·.created) :=
-      List.filter_eq_self.2 hA
-    have e2 : (l.filter (fun a => !a.created)).filter (·.created) = [] :=
-      List.filter_eq_nil_iff.2 (fun a ha => by simp [hB a ha])
-    have e3 : (l.filter (·.created)).filter (fun a => !a.created) = [] :=
-      List.filter_eq_nil_iff.2 (fun a ha => by simp [hA a ha])
-    have e4 : (l.filter (fun a => !a.created)).filter (fun a => !a.created) =
-        l.filter (fun a => !a.created) := List.filter_eq_self.2 (fun a ha => by simp [hB a ha])
-    rw [List.filter_append, List.filter_append, e1, e2, e3, e4]
-    simp
+  · simp only [hv, if_true, List.map_append, List.filter_map]
+    have e1 : ((fun a : BAsn => a.created) ∘ f) = fun a => a.created := by funext a; simp [hf]
+    have e2 : ((fun a : BAsn => !a.created) ∘ f) = fun a => !a.created := by funext a; simp [hf]
+    rw [e1, e2]
   · simp [hv]
 
-theorem map_norm_order (v : Nat) (l : List BAsn) :
-    (asnOrder v (l.map (norm v))).map (norm v) = asnOrder v (l.map (norm v)) := by
-  have : ∀ a ∈ asnOrder v (l.map (norm v)), norm v a = a := by
-    intro a ha
-    have : a ∈ l.map (norm v) := by
-      unfold asnOrder at ha
-      by_cases hv : v ≥ 2
-      · simp only [hv, if_true, List.mem_append, List.mem_filter] at ha
-        rcases ha with ha | ha <;> exact ha.1
-      · simp only [hv, if_false] at ha; exact ha
-    obtain ⟨b, _, rfl⟩ := List.mem_map.1 this
-    exact norm_idem v b
-  conv => rhs; rw [← List.map_id (asnOrder v (l.map (norm v)))]
-  exact List.map_congr_left this
+theorem shown_of_kept {l : String} (h : keptLabel l = true) : shownLabel l = true := by
+  unfold keptLabel at h
+  unfold shownLabel
+  exact (Bool.and_eq_true _ _ ▸ h).1
 
-/-- The full statement: every builder state survives the archive round trip. -/
-def ArchiveRoundtripFull : Prop :=
-  ∀ (s : BState) (g : String), (s.v = 1 ∨ s.v = 2) → s.label = none →
-    content (decode (encode s g)) = content s
+/-- all user assertions of a numbered list pass a label filter they all satisfy -/
+theorem kept_filter (p : String → Bool) (v : Nat) (Y : List BAsn) (hk : ∀ a ∈ Y, p a.label = true) :
+    (pairOrder v (numP Y [])).filter (fun q => p q.1.label) = pairOrder v (numP Y []) := by
+  apply List.filter_eq_self.2
+  intro q hq
+  exact hk q.1 (numP_mem Y [] q (pairOrder_mem hq))
 
-theorem restored_v (s : BState) (g : String) (hv : s.v = 1 ∨ s.v = 2) (hl : s.label = none) :
-    (match claimLabel s g with | .gen true _ _ => some 1 | _ => (none : Option Nat)).getD 2 = s.v := by
+/-- the builder `with_archive` restores from the archive of `claimOf s g L` -/
+def restored (s : BState) (g : String) (L : List BAsn) : BState :=
+  { title := s.title
+    format := if s.v ≥ 2 then "" else s.format
+    version := match claimLabel s g with | .gen true _ _ => some 1 | _ => none
+    label := some (claimLabel s g)
+    vendor := match claimLabel s g with | .gen _ v _ => v | .other _ => none
+    generators := markGens s.generators
+    thumbnail := entryThumb (thumbEntries s)
+    redactions := none
+    ingredients := (idxFrom (s.ingredients.map (ingAssertion s.v)) 0).map
+      (fun p => decodeIng s.v (unionStores s.ingredients) p.1 p.2)
+    assertions := restoredAsns s.v L
+    hashAlg := none
+    instanceId := s.instanceId
+    intent := none
+    remoteUrl := none
+    noEmbed := false }
+
+theorem decode_seal (s : BState) (g : String) (L : List BAsn)
+    (hkept : ∀ a ∈ L, keptLabel (normLabel a.label) = true) :
+    decode (sealArchive (claimOf s g L)) = restored s g L := by
+  unfold decode sealArchive wire claimOf restored
+  simp only
+  congr 1
+  · by_cases hv : s.v ≥ 2 <;> simp [hv]
+  · exact proj_thumb s _ _ rfl
+  · rw [entryIngs_eq, proj_ings s _ _ rfl]
+  · rw [decodeEntries_eq, proj_users s _ _ rfl]
+    rw [kept_filter keptLabel s.v _ (by
+      intro a ha
+      obtain ⟨b, hb, rfl⟩ := List.mem_map.1 ha
+      exact hkept b hb)]
+    unfold restoredAsns
+    have hN : L.map (N s.v) = (L.map (norm s.v)).map fix := by simp [N, Function.comp]
+    rw [hN, asnOrder_map s.v fix (fun _ => rfl)]
+    have : (fun q : BAsn × Nat => fix q.1) = fix ∘ (·.1) := rfl
+    rw [this, ← List.map_map, pairOrder_fst, numP_fst]
+
+theorem markGens_idem (gs : List Gen) : markGens (markGens gs) = markGens gs := by
+  cases gs with
+  | nil => rfl
+  | cons g t => rfl
+
+/-! ### the round trip -/
+
+/-- what the `Reader` reports of `Builder::sign` on `claimOf s g L` -/
+theorem report_bind (s : BState) (g : String) (L : List BAsn)
+    (hkept : ∀ a ∈ L, keptLabel (normLabel a.label) = true) :
+    report (bindData (claimOf s g L)) =
+      { title := s.title, version := s.v, generators := markGens s.generators
+        thumbnail := entryThumb (thumbEntries s), redactions := []
+        ingredients := (idxFrom (s.ingredients.map (ingAssertion s.v)) 0).map (repIng s.v)
+        assertions := reportPairs s.v L
+        manifests := unionStores s.ingredients, alg := s.hashAlg, remote := s.remoteUrl
+        embedded := !s.noEmbed, update := s.intent == some .update } := by
+  unfold report bindData wire claimOf
+  simp only
+  congr 1
+  · exact proj_thumb s _ _ rfl
+  · rw [reportIngs_eq, proj_ings s _ _ rfl]
+  · rw [reportAsns_eq, proj_users s _ _ rfl]
+    rw [kept_filter shownLabel s.v _ (by
+      intro a ha
+      obtain ⟨b, hb, rfl⟩ := List.mem_map.1 ha
+      exact shown_of_kept (hkept b hb))]
+    rfl
+
+/-- the manifest label gives the claim version back: none (the SDK generates one of the right
+shape), a generated-shape label of the state's version, or a free-form label on a version-2
+state (`manifest_label_to_parts` fails on it and `into_builder` leaves the default version) -/
+def LabelOK (s : BState) : Prop :=
+  match s.label with
+  | none => True
+  | some (.gen b _ _) => b = (s.v == 1)
+  | some (.other _) => s.v = 2
+
+/-- Conditions on the settings and the input builder state under which the round trip
+preserves the report. Each one is necessary (see the witnesses below). -/
+structure WF (cfg : Cfg) (s : BState) : Prop where
+  /-- no settings-driven actions / templates (`settings_actions_duplicated`) -/
+  cfg : cfg.extraActions = [] ∧ cfg.templates = []
+  ver : s.v = 1 ∨ s.v = 2
+  /-- the manifest label is left to the SDK, or is one whose shape gives the claim version back -/
+  label : LabelOK s
+  /-- `hash_alg_not_restored` -/
+  alg : s.hashAlg = none
+  /-- `redaction_resign_fails` -/
+  reds : s.redactions = none
+  /-- `embedding_mode_not_restored` -/
+  embed : s.noEmbed = false ∧ s.remoteUrl = none
+  /-- no intent (`edit_intent_archive_fails`; a Create / Edit-with-parent intent is baked into
+  the archived actions assertion: `intent_baked_*`) -/
+  intent : s.intent = none
+  /-- `reserved_prefix_not_restored` -/
+  kept : ∀ a ∈ s.assertions, keptLabel (normLabel a.label) = true
+  /-- `actions_reordered_resign_fails` -/
+  one : OneActions s.assertions
+  /-- `instance_numbers_swap` -/
+  sep : Sep (s.assertions.map (norm s.v))
+  load : ∀ i ∈ s.ingredients, IngLoad s.v i
+  /-- `v1_ingredient_thumbnail_lost`, `user_ingredient_thumbnail_replaced` -/
+  thumbs : ∀ i ∈ s.ingredients, ThumbOK s.v i
+  consistent : Consistent s.ingredients
+  /-- the walk from the active manifest reaches the whole store (`orphan_manifest_dropped`) -/
+  flat : ∀ i ∈ s.ingredients, ∀ m, activeMan i = some m →
+    SameSet (flatStore (unionStores s.ingredients) m.label) i.store
+
+/-- equal reports; the carried ingredient manifests as sets -/
+structure ReportEq (r' r : Report) : Prop where
+  title : r'.title = r.title
+  version : r'.version = r.version
+  generators : r'.generators = r.generators
+  thumbnail : r'.thumbnail = r.thumbnail
+  redactions : r'.redactions = r.redactions
+  ingredients : r'.ingredients = r.ingredients
+  assertions : r'.assertions = r.assertions
+  manifests : SameSet r'.manifests r.manifests
+  alg : r'.alg = r.alg
+  remote : r'.remote = r.remote
+  embedded : r'.embedded = r.embedded
+  update : r'.update = r.update
+
+theorem maybeAddParent_none (src : Ing) (s : BState) (h : s.intent = none) : maybeAddParent src s = s := by
+  unfold maybeAddParent
+  simp [h]
+
+theorem restored_v (s : BState) (g : String) (L : List BAsn) (hv : s.v = 1 ∨ s.v = 2) (hl : LabelOK s) :
+    (restored s g L).v = s.v := by
+  unfold LabelOK at hl
+  show (match claimLabel s g with | .gen true _ _ => some 1 | _ => (none : Option Nat)).getD 2 = s.v
   unfold claimLabel
-  rw [hl]
-  rcases hv with hv | hv
-  · have : (s.v == 1) = true := by simp [hv]
-    simp [this, hv]
-  · have : (s.v == 1) = false := by simp [hv]
-    simp [this, hv]
+  cases hlab : s.label with
+  | none =>
+    simp only
+    rcases hv with hv | hv
+    · have : (s.v == 1) = true := by simp [hv]
+      simp only [this]; exact hv.symm
+    · have : (s.v == 1) = false := by simp [hv]
+      simp only [this]; exact hv.symm
+  | some l =>
+    simp only [hlab] at hl
+    cases l with
+    | gen b vd gd =>
+      simp only at hl ⊢
+      subst hl
+      rcases hv with hv | hv
+      · have : (s.v == 1) = true := by simp [hv]
+        simp only [this]; exact hv.symm
+      · have : (s.v == 1) = false := by simp [hv]
+        simp only [this]; exact hv.symm
+    | other t =>
+      simp only at hl ⊢
+      exact hl.symm
 
-/-- **archive_roundtrip (partial: no `hash_alg`, no reserved labels).** -/
-theorem archive_roundtrip_partial (s : BState) (g : String) (hwf : WF s) (hv : s.v = 1 ∨ s.v = 2)
-    (hl : s.label = none) (halg : s.hashAlg = none) :
-    content (decode (encode s g)) = content s := by
-  rw [decode_encode s g hwf]
-  unfold content
-  simp only [BState.v, markGens_idem, halg]
-  have hvv := restored_v s g hv hl
-  unfold BState.v at hvv
-  rw [hvv]
-  rw [map_norm_order, filter_created_order]
+theorem thumb_restored (s : BState) : entryThumb (thumbEntries
+      ({ s with thumbnail := entryThumb (thumbEntries s) } : BState)) = entryThumb (thumbEntries s) := by
+  unfold thumbEntries
+  cases s.thumbnail with
+  | none => rfl
+  | some fb =>
+    obtain ⟨f, b⟩ := fb
+    by_cases h : (f == "none") = true
+    · simp [h, entryThumb]
+    · simp [h, entryThumb]
 
-example : WF ⟨some "t", "f", some 1, none, none, [⟨"g", false⟩], some ("f", "b"), none,
-    [⟨"i", "f", "componentOf", "x", none, some "store", some "results", none⟩],
-    [⟨"c2pa.actions", "d", false, true⟩, ⟨"org.x", "e", true, false⟩], none, "i"⟩ := by
-  intro a ha
-  simp at ha
-  rcases ha with rfl | rfl <;> decide
+theorem idxFrom_mem {X : List IngA} {k : Nat} {p : IngA × Nat} (h : p ∈ idxFrom X k) : p.1 ∈ X := by
+  induction X generalizing k with
+  | nil => simp [idxFrom] at h
+  | cons a t ih =>
+    simp only [idxFrom, List.mem_cons] at h
+    rcases h with rfl | h
+    · simp
+    · exact List.mem_cons_of_mem _ (ih h)
 
-/-- `hash_alg` is not restored: the witness. -/
-theorem archive_roundtrip_full_false : ¬ ArchiveRoundtripFull := by
-  intro h
-  have := h ⟨none, "f", none, none, none, [], none, none, [], [], some "sha512", "i"⟩ "g"
-    (Or.inr rfl) rfl
-  simp [content, decode, encode] at this
+theorem idxFrom_mem' {X : List IngA} {a : IngA} (h : a ∈ X) (k : Nat) : ∃ n, (a, n) ∈ idxFrom X k := by
+  induction X generalizing k with
+  | nil => simp at h
+  | cons b t ih =>
+    rcases List.mem_cons.1 h with rfl | h
+    · exact ⟨k, by simp [idxFrom]⟩
+    · obtain ⟨n, hn⟩ := ih h (k + 1)
+      exact ⟨n, by simp [idxFrom, hn]⟩
 
-/-- a user assertion whose label starts like the archive bookkeeping is dropped -/
-theorem reserved_label_dropped :
-    (decode (encode ⟨none, "f", none, none, none, [], none, none, [],
-      [⟨"org.contentauth.archive.metadata.mine", "d", true, false⟩], none, "i"⟩ "g")).assertions = [] := by
+/-- restored ingredients are written and reported like the originals, index by index -/
+theorem idx_step (v : Nat) (mans : List Man) (X : List Ing) (k : Nat)
+    (h : ∀ i ∈ X, ∀ k, repIng v (ingAssertion v (decodeIng v mans (ingAssertion v i) k), k) =
+      repIng v (ingAssertion v i, k)) :
+    (idxFrom (((idxFrom (X.map (ingAssertion v)) k).map (fun p => decodeIng v mans p.1 p.2)).map
+        (ingAssertion v)) k).map (repIng v) =
+      (idxFrom (X.map (ingAssertion v)) k).map (repIng v) := by
+  induction X generalizing k with
+  | nil => rfl
+  | cons i t ih =>
+    simp only [List.map_cons, idxFrom]
+    rw [h i (by simp) k]
+    congr 1
+    exact ih (k + 1) (fun j hj => h j (by simp [hj]))
+
+/-- **archive_roundtrip** — for every settings value and builder state satisfying `WF`, every
+pair of fresh manifest ids and every source asset: the archive is written; the original and the
+restored builder both sign; the two reports agree in title, claim version, generators, claim
+thumbnail, redactions, ingredients (title, format, relationship, instance id, label, active
+manifest, validation results / status, thumbnail image), assertions (label, instance number,
+payload, kind, created/gathered, claim order), hash algorithm, embedding mode, and carry the
+same set of ingredient manifests. -/
+theorem archive_roundtrip (cfg : Cfg) (s : BState) (src : Ing) (g g' : String) (h : WF cfg s) :
+    ∃ a c c', encode cfg s g = .ok a ∧ sign cfg src s g' = .ok c ∧
+      sign cfg src (decode a) g' = .ok c' ∧ ReportEq (report c') (report c) := by
+  have hprep : prepAsns cfg s.intent (hasParent s) s.assertions = .ok s.assertions := by
+    rw [h.intent]; exact prep_plain cfg h.cfg _ _ h.one
+  have hcl : ∀ x, toClaim cfg s x = .ok (claimOf s x s.assertions) :=
+    fun x => toClaim_ok cfg s x _ h.reds h.load hprep
+  have henc : encode cfg s g = .ok (sealArchive (claimOf s g s.assertions)) := by
+    unfold encode; rw [hcl g]; rfl
+  have hsign : sign cfg src s g' = .ok (bindData (claimOf s g' s.assertions)) := by
+    unfold sign; rw [maybeAddParent_none src s h.intent, hcl g']; rfl
+  have hdec : decode (sealArchive (claimOf s g s.assertions)) = restored s g s.assertions :=
+    decode_seal s g _ h.kept
+  -- the restored builder
+  have hrv : (restored s g s.assertions).v = s.v := restored_v s g _ h.ver h.label
+  have hlook : ∀ i ∈ s.ingredients, ∀ m, activeMan i = some m →
+      findMan (unionStores s.ingredients) m.label = some m :=
+    fun i hi m hm => look_of_consistent s.ingredients h.consistent i hi m hm
+  have hstep : ∀ i ∈ s.ingredients, ∀ k,
+      repIng s.v (ingAssertion s.v (decodeIng s.v (unionStores s.ingredients) (ingAssertion s.v i) k), k) =
+        repIng s.v (ingAssertion s.v i, k) ∧
+      IngLoad s.v (decodeIng s.v (unionStores s.ingredients) (ingAssertion s.v i) k) :=
+    fun i hi k => ing_step s.v _ i k (h.load i hi) (h.thumbs i hi) (hlook i hi)
+  have hload' : ∀ i ∈ (restored s g s.assertions).ingredients, IngLoad (restored s g s.assertions).v i := by
+    intro i hi
+    rw [hrv]
+    simp only [restored, List.mem_map] at hi
+    obtain ⟨p, hp, rfl⟩ := hi
+    obtain ⟨j, hj, hpj⟩ := List.mem_map.1 (idxFrom_mem hp)
+    rw [← hpj]
+    exact (hstep j hj p.2).2
+  have hone' : OneActions (restored s g s.assertions).assertions := OneActions_restored s.v _ h.one
+  have hprep' : prepAsns cfg (restored s g s.assertions).intent (hasParent (restored s g s.assertions))
+      (restored s g s.assertions).assertions = .ok (restoredAsns s.v s.assertions) :=
+    prep_plain cfg h.cfg _ _ hone'
+  have hcl' : toClaim cfg (restored s g s.assertions) g' =
+      .ok (claimOf (restored s g s.assertions) g' (restoredAsns s.v s.assertions)) :=
+    toClaim_ok cfg _ g' _ rfl hload' hprep'
+  have hsign' : sign cfg src (restored s g s.assertions) g' =
+      .ok (bindData (claimOf (restored s g s.assertions) g' (restoredAsns s.v s.assertions))) := by
+    unfold sign; rw [maybeAddParent_none src _ rfl, hcl']; rfl
+  have hkept' : ∀ a ∈ restoredAsns s.v s.assertions, keptLabel (normLabel a.label) = true := by
+    intro a ha
+    obtain ⟨b, hb, rfl⟩ := List.mem_map.1 (asnOrder_mem ha)
+    rw [N_label, normLabel_idem]
+    exact h.kept b hb
+  refine ⟨_, _, _, henc, hsign, by rw [hdec]; exact hsign', ?_⟩
+  rw [report_bind _ g' _ hkept', report_bind s g' _ h.kept, hrv]
+  constructor
+  · rfl
+  · rfl
+  · exact markGens_idem _
+  · exact thumb_restored s
+  · rfl
+  · -- ingredients
+    show (idxFrom ((restored s g s.assertions).ingredients.map (ingAssertion s.v)) 0).map (repIng s.v) = _
+    exact idx_step s.v _ s.ingredients 0 (fun i hi k => (hstep i hi k).1)
+  · -- assertions
+    exact assertions_roundtrip s.v s.assertions h.sep
+  · -- manifests
+    intro m
+    show m ∈ unionStores (restored s g s.assertions).ingredients ↔ m ∈ unionStores s.ingredients
+    have hstore : ∀ i' ∈ (restored s g s.assertions).ingredients, ∃ i ∈ s.ingredients,
+        SameSet i'.store i.store := by
+      intro i' hi'
+      simp only [restored, List.mem_map] at hi'
+      obtain ⟨p, hp, rfl⟩ := hi'
+      obtain ⟨j, hj, hpj⟩ := List.mem_map.1 (idxFrom_mem hp)
+      refine ⟨j, hj, ?_⟩
+      rw [← hpj]
+      cases ham : activeMan j with
+      | none =>
+        have hjs : j.store = [] := by
+          rcases h.load j hj with hn | ⟨m', hm', _⟩
+          · exact hn
+          · rw [ham] at hm'; cases hm'
+        intro x
+        simp [decodeIng, ingAssertion, ham, hjs]
+      | some m' =>
+        have := h.flat j hj m' ham
+        intro x
+        simp only [decodeIng, ingAssertion, ham, Option.map_some]
+        exact this x
+    have hstore' : ∀ i ∈ s.ingredients, ∃ i' ∈ (restored s g s.assertions).ingredients,
+        SameSet i'.store i.store := by
+      intro j hj
+      obtain ⟨n, hn⟩ := idxFrom_mem' (List.mem_map_of_mem (f := ingAssertion s.v) hj) 0
+      refine ⟨decodeIng s.v (unionStores s.ingredients) (ingAssertion s.v j) n, ?_, ?_⟩
+      · simp only [restored, List.mem_map]
+        exact ⟨_, hn, rfl⟩
+      · cases ham : activeMan j with
+        | none =>
+          have hjs : j.store = [] := by
+            rcases h.load j hj with hn' | ⟨m', hm', _⟩
+            · exact hn'
+            · rw [ham] at hm'; cases hm'
+          intro x
+          simp [decodeIng, ingAssertion, ham, hjs]
+        | some m' =>
+          have := h.flat j hj m' ham
+          intro x
+          simp only [decodeIng, ingAssertion, ham, Option.map_some]
+          exact this x
+    have hc' : Consistent (restored s g s.assertions).ingredients := by
+      intro a ha b hb x hx y hy hl
+      obtain ⟨i, hi, hsi⟩ := hstore a ha
+      obtain ⟨j, hj, hsj⟩ := hstore b hb
+      exact h.consistent i hi j hj x ((hsi x).1 hx) y ((hsj y).1 hy) hl
+    rw [unionStores_mem _ hc', unionStores_mem _ h.consistent]
+    constructor
+    · rintro ⟨i', hi', hm⟩
+      obtain ⟨i, hi, hs⟩ := hstore i' hi'
+      exact ⟨i, hi, (hs m).1 hm⟩
+    · rintro ⟨i, hi, hm⟩
+      obtain ⟨i', hi', hs⟩ := hstore' i hi
+      exact ⟨i', hi', (hs m).2 hm⟩
+  · show (none : Option String) = s.hashAlg
+    exact h.alg.symm
+  · show (none : Option String) = s.remoteUrl
+    exact h.embed.2.symm
+  · show (!false) = !s.noEmbed
+    rw [h.embed.1]
+  · show ((none : Option Intent) == some Intent.update) = (s.intent == some Intent.update)
+    rw [h.intent]
+
+/-! ### chains of any length (ingredients without manifest stores) -/
+
+/-- no ingredient carries a manifest store (unsigned ingredients; any thumbnails) -/
+def Plain (s : BState) : Prop := ∀ i ∈ s.ingredients, i.store = []
+
+theorem ReportEq.rfl' (r : Report) : ReportEq r r :=
+  ⟨rfl, rfl, rfl, rfl, rfl, rfl, rfl, fun _ => Iff.rfl, rfl, rfl, rfl, rfl⟩
+
+theorem ReportEq.trans' {a b c : Report} (h1 : ReportEq a b) (h2 : ReportEq b c) : ReportEq a c :=
+  ⟨h1.title.trans h2.title, h1.version.trans h2.version, h1.generators.trans h2.generators,
+    h1.thumbnail.trans h2.thumbnail, h1.redactions.trans h2.redactions,
+    h1.ingredients.trans h2.ingredients, h1.assertions.trans h2.assertions,
+    fun m => (h1.manifests m).trans (h2.manifests m), h1.alg.trans h2.alg, h1.remote.trans h2.remote,
+    h1.embedded.trans h2.embedded, h1.update.trans h2.update⟩
+
+theorem Sep_of_subset {X Y : List BAsn} (h : ∀ a ∈ Y, a ∈ X) (hs : Sep X) : Sep Y :=
+  fun a ha b hb hab => hs a (h a ha) b (h b hb) hab
+
+/-- one step keeps a plain well-formed state plain and well-formed -/
+theorem wf_step_plain (cfg : Cfg) (s : BState) (g : String) (h : WF cfg s) (hp : Plain s) :
+    ∃ a, encode cfg s g = .ok a ∧ WF cfg (decode a) ∧ Plain (decode a) := by
+  have hprep : prepAsns cfg s.intent (hasParent s) s.assertions = .ok s.assertions := by
+    rw [h.intent]; exact prep_plain cfg h.cfg _ _ h.one
+  have henc : encode cfg s g = .ok (sealArchive (claimOf s g s.assertions)) := by
+    unfold encode; rw [toClaim_ok cfg s g _ h.reds h.load hprep]; rfl
+  have hdec : decode (sealArchive (claimOf s g s.assertions)) = restored s g s.assertions :=
+    decode_seal s g _ h.kept
+  have hrv : (restored s g s.assertions).v = s.v := restored_v s g _ h.ver h.label
+  have hstores : ∀ i ∈ (restored s g s.assertions).ingredients, i.store = [] := by
+    intro i hi
+    simp only [restored, List.mem_map] at hi
+    obtain ⟨p, hp', rfl⟩ := hi
+    obtain ⟨j, hj, hpj⟩ := List.mem_map.1 (idxFrom_mem hp')
+    rw [← hpj]
+    simp [decodeIng, ingAssertion, activeMan_nil (hp j hj)]
+  refine ⟨_, henc, ?_, by rw [hdec]; exact hstores⟩
+  rw [hdec]
+  refine
+    { cfg := h.cfg, ver := by rw [hrv]; exact h.ver, label := ?_, alg := rfl, reds := rfl
+      embed := ⟨rfl, rfl⟩, intent := rfl, kept := ?_, one := OneActions_restored s.v _ h.one
+      sep := ?_, load := fun i hi => Or.inl (hstores i hi), thumbs := fun i hi => Or.inl (hstores i hi)
+      consistent := ?_, flat := ?_ }
+  · -- label
+    unfold LabelOK
+    show (match (some (claimLabel s g) : Option MLabel) with
+      | none => True
+      | some (.gen b _ _) => b = ((restored s g s.assertions).v == 1)
+      | some (.other _) => (restored s g s.assertions).v = 2)
+    rw [hrv]
+    have hl := h.label
+    unfold LabelOK at hl
+    unfold claimLabel
+    cases hlab : s.label with
+    | none => simp
+    | some l =>
+      simp only [hlab] at hl
+      cases l with
+      | gen b vd gd => simpa using hl
+      | other t => simpa using hl
+  · -- kept labels
+    intro a ha
+    obtain ⟨b, hb, rfl⟩ := List.mem_map.1 (asnOrder_mem ha)
+    rw [N_label, normLabel_idem]
+    exact h.kept b hb
+  · -- Sep
+    show Sep ((restoredAsns s.v s.assertions).map (norm (restored s g s.assertions).v))
+    rw [hrv]
+    have hNN : (restoredAsns s.v s.assertions).map (norm s.v) = restoredAsns s.v s.assertions := by
+      apply asnOrder_map_id
+      intro y hy
+      obtain ⟨a, _, rfl⟩ := List.mem_map.1 hy
+      exact norm_N s.v a
+    rw [hNN]
+    have hN : s.assertions.map (N s.v) = (s.assertions.map (norm s.v)).map fix := by simp [N, Function.comp]
+    apply Sep_of_subset (X := s.assertions.map (N s.v)) (fun a ha => asnOrder_mem ha)
+    rw [hN]
+    exact Sep_map fix (fun _ => rfl) (fun _ => rfl) _ h.sep
+  · intro i hi j _ x hx
+    rw [hstores i hi] at hx
+    simp at hx
+  · intro i hi m hm
+    rw [activeMan_nil (hstores i hi)] at hm
+    cases hm
+
+/-- **archive_chain_plain** — any number of save/restore steps: for a well-formed builder state
+whose ingredients carry no manifest store, the chain succeeds and the restored builder signs to
+a report equal to the original's. -/
+theorem archive_chain_plain (cfg : Cfg) (src : Ing) (g' : String) (gs : List String) (s : BState)
+    (h : WF cfg s) (hp : Plain s) :
+    ∃ r c c', chain cfg gs s = .ok r ∧ sign cfg src s g' = .ok c ∧ sign cfg src r g' = .ok c' ∧
+      ReportEq (report c') (report c) := by
+  induction gs generalizing s with
+  | nil =>
+    obtain ⟨_, c, _, _, hs, _, _⟩ := archive_roundtrip cfg s src "g" g' h
+    exact ⟨s, c, c, rfl, hs, hs, ReportEq.rfl' _⟩
+  | cons g t ih =>
+    obtain ⟨a, c, c', ha, hs, hs', heq⟩ := archive_roundtrip cfg s src g g' h
+    obtain ⟨a', ha', hwf, hpl⟩ := wf_step_plain cfg s g h hp
+    have : a' = a := by rw [ha] at ha'; cases ha'; rfl
+    subst this
+    obtain ⟨r, c1, c2, hr, hs1, hs2, heq2⟩ := ih (decode a') hwf hpl
+    have : c1 = c' := by rw [hs'] at hs1; cases hs1; rfl
+    subst this
+    refine ⟨r, c, c2, ?_, hs, hs2, heq2.trans' heq⟩
+    simp only [chain, ha]
+    exact hr
+
+/-- **chain_payload_stable** — without settings-driven additions the reported assertions (with
+their payloads) are the same after any number of round trips; with them they are not
+(`settings_actions_duplicated`). -/
+theorem chain_payload_stable (cfg : Cfg) (src : Ing) (g' : String) (gs : List String) (s : BState)
+    (h : WF cfg s) (hp : Plain s) :
+    ∃ r c c', chain cfg gs s = .ok r ∧ sign cfg src s g' = .ok c ∧ sign cfg src r g' = .ok c' ∧
+      (report c').assertions = (report c).assertions := by
+  obtain ⟨r, c, c', h1, h2, h3, h4⟩ := archive_chain_plain cfg src g' gs s h hp
+  exact ⟨r, c, c', h1, h2, h3, h4.assertions⟩
+
+/-! ### witnesses: each restriction of `WF` is necessary
+
+`rep cfg n s` is the report of signing `s` after `n` save/restore steps (`n = 0`: directly);
+manifests are compared sorted by label. The harness replays every witness on the
+implementation (`W-…` cases). -/
+
+def rep (cfg : Cfg) (n : Nat) (s : BState) : Except Err Report :=
+  match chain cfg (List.replicate n "g") s with
+  | .error e => .error e
+  | .ok r => (sign cfg srcIng r "h").map fun c =>
+      let x := report c
+      { x with manifests := sortMans x.manifests }
+
+def s0 : BState :=
+  { title := some "t", format := "f", version := none, label := none, vendor := none
+    generators := [⟨"g", false⟩], thumbnail := some ("image/jpeg", "img"), redactions := none
+    ingredients := []
+    assertions := [⟨"c2pa.actions", "", ["c2pa.created"], [], false, true⟩, ⟨"org.x", "d", [], [], true, false⟩]
+    hashAlg := none, instanceId := "i", intent := none, remoteUrl := none, noEmbed := false }
+
+/-- a signed, validated ingredient whose store is its active manifest `m0` -/
+def ingCA (th : Option TRef) (store : List Man) : Ing :=
+  ⟨"CA", "f", "componentOf", "i", none, some "m0", store, some true, ["u"], th⟩
+
+def m0 : Man := ⟨"m0", 1, true, ["c2pa.actions", "x"], []⟩
+
+def sCA (v : Nat) (th : Option TRef) : BState :=
+  { s0 with version := some v, ingredients := [ingCA th [m0]] }
+
+/-- `hash_alg` is not restored -/
+theorem hash_alg_not_restored :
+    (rep {} 1 { s0 with hashAlg := some "sha512" }).map (·.alg) ≠
+      (rep {} 0 { s0 with hashAlg := some "sha512" }).map (·.alg) := by decide
+
+/-- `remote_url` / `no_embed` are not restored: the original builder writes a remote-only
+manifest, the restored one embeds it -/
+theorem embedding_mode_not_restored :
+    (rep {} 1 { s0 with noEmbed := true, remoteUrl := some "r" }).map (fun r => (r.embedded, r.remote)) ≠
+      (rep {} 0 { s0 with noEmbed := true, remoteUrl := some "r" }).map (fun r => (r.embedded, r.remote)) := by
   decide
 
-theorem wf_restored (s : BState) (g : String) (hwf : WF s) : WF (decode (encode s g)) := by
-  rw [decode_encode s g hwf]
-  intro a ha
-  simp only at ha
-  have : a ∈ s.assertions.map (norm s.v) := by
-    unfold asnOrder at ha
-    by_cases hv : s.v ≥ 2
-    · simp only [hv, if_true, List.mem_append, List.mem_filter] at ha
-      rcases ha with ha | ha <;> exact ha.1
-    · simp only [hv, if_false] at ha; exact ha
-  obtain ⟨b, hb, rfl⟩ := List.mem_map.1 this
-  show keptLabel (normLabel (normLabel b.label)) = true
-  rw [normLabel_idem]
-  exact hwf b hb
+/-- a user assertion labelled like the archive bookkeeping is reported when signed directly and
+gone after a round trip -/
+theorem archive_label_dropped :
+    (rep {} 1 { s0 with assertions := s0.assertions ++ [⟨"org.contentauth.archive.metadata.mine", "d", [], [], true, false⟩] }).map (·.assertions.length) = .ok 2 ∧
+    (rep {} 0 { s0 with assertions := s0.assertions ++ [⟨"org.contentauth.archive.metadata.mine", "d", [], [], true, false⟩] }).map (·.assertions.length) = .ok 3 := by
+  decide
 
-/-- A restored builder is a fixed point of save/restore (as a record). -/
-theorem restored_is_fixed_point (s : BState) (g g' : String) (hwf : WF s)
-    (hv : s.v = 1 ∨ s.v = 2) (hl : s.label = none) :
-    decode (encode (decode (encode s g)) g') = decode (encode s g) := by
-  rw [decode_encode _ g' (wf_restored s g hwf), decode_encode s g hwf]
-  have key : ∀ v, asnOrder v ((asnOrder v (s.assertions.map (norm v))).map (norm v)) =
-      asnOrder v (s.assertions.map (norm v)) := by
-    intro v; rw [map_norm_order, filter_created_order]
-  rcases hv with hv | hv
-  · have hv' : s.version.getD 2 = 1 := hv
-    simp [claimLabel, hl, BState.v, hv', markGens_idem, key]
-  · have hv' : s.version.getD 2 = 2 := hv
-    simp [claimLabel, hl, BState.v, hv', markGens_idem, key]
+/-- **Every assertion definition a restored builder holds has a label that `from_store` lists
+among the assertions and that is not archive bookkeeping** — whatever the archive's claim held. -/
+theorem restored_labels_kept (es : List Entry) (a : BAsn) (ha : a ∈ decodeEntries es) :
+    keptLabel a.label = true := by
+  induction es with
+  | nil => simp [decodeEntries] at ha
+  | cons e t ih =>
+    cases e with
+    | user b k =>
+      simp only [decodeEntries] at ha
+      by_cases hk : keptLabel b.label = true
+      · simp only [hk, if_true, List.mem_cons] at ha
+        rcases ha with rfl | ha
+        · exact hk
+        · exact ih ha
+      · simp only [hk, Bool.false_eq_true, if_false] at ha
+        exact ih ha
+    | _ => exact ih (by simpa [decodeEntries] using ha)
 
-/-- **Chains**: any number ≥ 1 of save/restore steps gives the record of a single step. -/
-theorem chain_eq_one (s : BState) (g : String) (gs : List String) (hwf : WF s)
-    (hv : s.v = 1 ∨ s.v = 2) (hl : s.label = none) :
-    chain (g :: gs) s = decode (encode s g) := by
-  show chain gs (decode (encode s g)) = _
-  induction gs with
-  | nil => rfl
-  | cons g' t ih =>
-    show chain t (decode (encode (decode (encode s g)) g')) = _
-    rw [restored_is_fixed_point s g g' hwf hv hl, ih]
+/-- **reserved_prefix_not_restored** — no assertion definition of a restored builder has a label
+that `from_store` routes to its ingredient, hard-binding or claim-thumbnail arm, or that starts
+like the archive bookkeeping — whatever the archive's claim held under such a label. -/
+theorem reserved_prefix_not_restored (es : List Entry) (a : BAsn) (ha : a ∈ decodeEntries es) :
+    classify a.label ≠ Part.ingredient ∧ classify a.label ≠ Part.hidden ∧
+      classify a.label ≠ Part.thumbnail ∧ startsWith archiveMetaLabel a.label = false := by
+  have hk := restored_labels_kept es a ha
+  unfold keptLabel at hk
+  simp only [Bool.and_eq_true, Bool.or_eq_true, beq_iff_eq, Bool.not_eq_true'] at hk
+  refine ⟨?_, ?_, ?_, hk.2⟩ <;> intro h <;> rw [h] at hk <;> simp at hk
 
-/-- **archive_chain**: a chain of any length ≥ 1 preserves the content. -/
-theorem archive_chain (s : BState) (g : String) (gs : List String) (hwf : WF s)
-    (hv : s.v = 1 ∨ s.v = 2) (hl : s.label = none) (halg : s.hashAlg = none) :
-    content (chain (g :: gs) s) = content s := by
-  rw [chain_eq_one s g gs hwf hv hl]
-  exact archive_roundtrip_partial s g hwf hv hl halg
+/-- the arms in terms of label prefixes (source order of `Manifest::from_store`) -/
+theorem classify_ingredient (l : String) (h1 : startsWith "c2pa.actions" l = false)
+    (h2 : startsWith "c2pa.ingredient" l = true) : classify l = Part.ingredient := by
+  simp [classify, h1, h2]
+
+theorem classify_bmff (l : String) (h1 : startsWith "c2pa.actions" l = false)
+    (h2 : startsWith "c2pa.ingredient" l = false) (h3 : startsWith "c2pa.hash.bmff" l = true) :
+    classify l = Part.hidden := by
+  simp [classify, h1, h2, isHardBinding, h3]
+
+theorem classify_claim_thumbnail (l : String) (h1 : startsWith "c2pa.actions" l = false)
+    (h2 : startsWith "c2pa.ingredient" l = false) (h3 : isHardBinding l = false)
+    (h4 : startsWith "c2pa.thumbnail.claim" l = true) : classify l = Part.thumbnail := by
+  simp [classify, h1, h2, h3, h4]
+
+example : classify "c2pa.ingredient.mine" = Part.ingredient ∧ classify "c2pa.hash.bmff.v9x" = Part.hidden ∧
+    classify "c2pa.thumbnail.claim.mine" = Part.thumbnail ∧ classify "org.x.metadata" = Part.metadata := by
+  decide
+
+def sRed : BState := { s0 with version := some 2, ingredients := [ingCA (some (.own true)) [m0]], redactions := some [("m0", "x")] }
+
+/-- a builder with a redaction signs, but after a round trip signing fails: the archive holds
+the ingredient's manifest with the assertion already removed, and re-applying the redaction does
+not find it (`Claim::redact_assertion` → `AssertionRedactionNotFound`) -/
+theorem redaction_resign_fails :
+    (rep {} 0 sRed).map (·.redactions) =
+      .ok [("m0", "x")] ∧
+    rep {} 1 sRed = .error .redactionNotFound := by
+  decide
+
+/-- settings-driven actions and templates are appended by every `to_claim`: signing directly
+gives one copy, after n round trips n+1 copies -/
+theorem settings_actions_duplicated :
+    ((rep ⟨["c2pa.edited"], ["t"]⟩ 0 s0).map fun r => r.assertions.map fun q => (q.1.acts, q.1.tmpls)) =
+      .ok [(["c2pa.created", "c2pa.edited"], ["t"]), ([], [])] ∧
+    ((rep ⟨["c2pa.edited"], ["t"]⟩ 1 s0).map fun r => r.assertions.map fun q => (q.1.acts, q.1.tmpls)) =
+      .ok [(["c2pa.created", "c2pa.edited", "c2pa.edited"], ["t", "t"]), ([], [])] ∧
+    ((rep ⟨["c2pa.edited"], ["t"]⟩ 2 s0).map fun r => r.assertions.map fun q => (q.1.acts, q.1.tmpls)) =
+      .ok [(["c2pa.created", "c2pa.edited", "c2pa.edited", "c2pa.edited"], ["t", "t", "t"]), ([], [])] := by
+  decide
+
+/-- … also when the definition has no actions assertion (the `!found_actions` branch): the
+restored builder then holds one, and the inception action is there twice -/
+theorem settings_actions_duplicated_no_actions :
+    ((rep ⟨["c2pa.created", "c2pa.edited"], []⟩ 1 { s0 with assertions := [] }).map fun r =>
+        r.assertions.map fun q => q.1.acts) =
+      .ok [["c2pa.created", "c2pa.edited", "c2pa.created", "c2pa.edited"]] := by
+  decide
+
+/-- two actions assertions, the inception in the gathered one: signs directly; the restored
+builder lists the created one first and `to_claim` refuses the inception in the second -/
+theorem actions_reordered_resign_fails :
+    (rep {} 0 { s0 with assertions := [⟨"c2pa.actions", "", ["c2pa.created"], [], false, false⟩,
+        ⟨"c2pa.actions", "", ["c2pa.edited"], [], false, true⟩] }).isOk = true ∧
+    rep {} 1 { s0 with assertions := [⟨"c2pa.actions", "", ["c2pa.created"], [], false, false⟩,
+        ⟨"c2pa.actions", "", ["c2pa.edited"], [], false, true⟩] } = .error .badParam := by
+  decide
+
+/-- version-1 claim, validated signed ingredient with the thumbnail of its own manifest: one
+round trip keeps the image (copied into a data box), the second loses the thumbnail — the data
+box reference is declared stale and a version-1 ingredient assertion carries no validation
+results to justify the fallback -/
+theorem v1_ingredient_thumbnail_lost :
+    (rep {} 0 (sCA 1 (some (.own true)))).map (fun r => r.ingredients.map (·.thumb)) = .ok [some "own:m0"] ∧
+    (rep {} 1 (sCA 1 (some (.own true)))).map (fun r => r.ingredients.map (·.thumb)) = .ok [some "own:m0"] ∧
+    (rep {} 2 (sCA 1 (some (.own true)))).map (fun r => r.ingredients.map (·.thumb)) = .ok [none] := by
+  decide
+
+/-- a caller-supplied thumbnail on a signed ingredient is replaced by the claim thumbnail of the
+ingredient's manifest (version-2 claim), or lost (version-1 claim) -/
+theorem user_ingredient_thumbnail_replaced :
+    (rep {} 0 (sCA 2 (some (.res "user")))).map (fun r => r.ingredients.map (·.thumb)) = .ok [some "user"] ∧
+    (rep {} 1 (sCA 2 (some (.res "user")))).map (fun r => r.ingredients.map (·.thumb)) = .ok [some "own:m0"] ∧
+    (rep {} 1 (sCA 1 (some (.res "user")))).map (fun r => r.ingredients.map (·.thumb)) = .ok [none] := by
+  decide
+
+/-- an Edit intent without a parent ingredient: `sign` takes the source asset as parent, but
+`to_archive` has no source asset and fails -/
+theorem edit_intent_archive_fails :
+    (rep {} 0 { s0 with intent := some .edit, assertions := [] }).isOk = true ∧
+    encode {} { s0 with intent := some .edit, assertions := [] } "g" = .error .badParam := by
+  decide
+
+def sEditParent : BState :=
+  { s0 with intent := some .edit, assertions := [], version := some 2
+            ingredients := [⟨"CA", "f", "parentOf", "i", none, some "m0", [m0], some true, ["u"], some (.own true)⟩] }
+
+def ingParent : Ing := ⟨"CA", "f", "parentOf", "i", none, some "m0", [m0], some true, ["u"], some (.own true)⟩
+
+/-- a Create intent (and an Edit intent with a parent) is baked into the archived actions
+assertion: the report is the same although the restored builder has no intent -/
+theorem intent_baked :
+    rep {} 1 { s0 with intent := some .create, assertions := [] } =
+      rep {} 0 { s0 with intent := some .create, assertions := [] } ∧
+    rep {} 2 sEditParent =
+      rep {} 0 sEditParent := by
+  decide
+
+/-- a manifest of the ingredient's store that no ingredient assertion leads to is not carried
+through the archive -/
+theorem orphan_manifest_dropped :
+    (rep {} 0 { s0 with ingredients := [ingCA none [m0, ⟨"m9", 1, false, [], []⟩]] }).map (·.manifests.length) = .ok 2 ∧
+    (rep {} 1 { s0 with ingredients := [ingCA none [m0, ⟨"m9", 1, false, [], []⟩]] }).map (·.manifests.length) = .ok 1 := by
+  decide
+
+/-! ### chains on the shapes of the fixture ingredients (kernel-evaluated) -/
+
+/-- ocsp.jpg: the active manifest refers to its ingredient through `c2pa_manifest` -/
+def storeV1Chain : List Man := [⟨"m1", 1, false, ["c2pa.actions"], []⟩, ⟨"m0", 1, true, ["c2pa.actions"], [(false, "m1")]⟩]
+
+/-- CACAE-uri-CA.jpg: three manifests, `c2pa_manifest` links -/
+def storeV1Deep : List Man :=
+  [⟨"m2", 1, true, ["x"], []⟩, ⟨"m1", 1, true, ["x"], [(false, "m2")]⟩, ⟨"m0", 1, true, ["x"], [(false, "m1")]⟩]
+
+/-- CACA.jpg: `activeManifest` link -/
+def storeV3Chain : List Man := [⟨"m1", 2, false, ["c2pa.actions.v2"], []⟩, ⟨"m0", 2, true, ["c2pa.actions.v2"], [(true, "m1")]⟩]
+
+def sV1Chain : BState := { s0 with ingredients := [ingCA (some (.own true)) storeV1Chain] }
+def sV1Deep : BState := { s0 with ingredients := [ingCA (some (.own true)) storeV1Deep] }
+def sV3Chain : BState := { s0 with ingredients := [ingCA (some (.own true)) storeV3Chain, ingCA none []] }
+
+theorem chain_examples_single :
+    rep {} 1 (sCA 2 (some (.own true))) = rep {} 0 (sCA 2 (some (.own true))) ∧
+    rep {} 2 (sCA 2 (some (.own true))) = rep {} 0 (sCA 2 (some (.own true))) ∧
+    rep {} 3 (sCA 2 (some (.own true))) = rep {} 0 (sCA 2 (some (.own true))) := by
+  decide +kernel
+
+theorem chain_examples_v1_links :
+    rep {} 1 sV1Chain = rep {} 0 sV1Chain ∧ rep {} 2 sV1Chain = rep {} 0 sV1Chain ∧
+    rep {} 3 sV1Chain = rep {} 0 sV1Chain := by
+  decide +kernel
+
+theorem chain_examples_v1_deep :
+    rep {} 1 sV1Deep = rep {} 0 sV1Deep ∧ rep {} 2 sV1Deep = rep {} 0 sV1Deep ∧
+    rep {} 3 sV1Deep = rep {} 0 sV1Deep := by
+  decide +kernel
+
+theorem chain_examples_v3_links :
+    rep {} 1 sV3Chain = rep {} 0 sV3Chain ∧ rep {} 2 sV3Chain = rep {} 0 sV3Chain ∧
+    rep {} 3 sV3Chain = rep {} 0 sV3Chain := by
+  decide +kernel
+
+/-- version-1 claim: chains are faithful for signed ingredients without a reported thumbnail
+(here: not validated) and for unsigned ingredients with a caller-supplied one -/
+def ingInvalid : Ing := ⟨"CA", "f", "componentOf", "i", none, some "m0", storeV1Chain, some false, ["u"], none⟩
+def ingPlainThumb : Ing := ⟨"U", "f", "componentOf", "i", none, none, [], none, [], some (.res "user")⟩
+def sV1Invalid : BState := { s0 with version := some 1, ingredients := [ingInvalid] }
+def sV1Plain : BState := { s0 with version := some 1, ingredients := [ingPlainThumb] }
+
+theorem chain_examples_v1_claim :
+    rep {} 1 sV1Invalid = rep {} 0 sV1Invalid ∧ rep {} 2 sV1Invalid = rep {} 0 sV1Invalid ∧
+    rep {} 3 sV1Invalid = rep {} 0 sV1Invalid ∧
+    rep {} 1 sV1Plain = rep {} 0 sV1Plain ∧ rep {} 2 sV1Plain = rep {} 0 sV1Plain ∧
+    rep {} 3 sV1Plain = rep {} 0 sV1Plain := by
+  decide +kernel
+
+/-! ### non-vacuity -/
+
+theorem sameSet_of_all {a b : List Man} (h1 : a.all (fun m => b.contains m) = true)
+    (h2 : b.all (fun m => a.contains m) = true) : SameSet a b := by
+  intro m
+  constructor
+  · intro hm
+    have := List.all_eq_true.1 h1 m hm
+    simpa using this
+  · intro hm
+    have := List.all_eq_true.1 h2 m hm
+    simpa using this
+
+/-- a state with a caller thumbnail, created and gathered assertions, an unsigned ingredient and
+a signed one whose two manifests are linked by `c2pa_manifest` meets `WF` -/
+example : WF {} { s0 with ingredients := [ingCA (some (.own true)) storeV1Chain, ingPlainThumb] } where
+  cfg := ⟨rfl, rfl⟩
+  ver := Or.inr rfl
+  label := trivial
+  alg := rfl
+  reds := rfl
+  embed := ⟨rfl, rfl⟩
+  intent := rfl
+  kept := by decide
+  one := by unfold OneActions; decide
+  sep := by unfold Sep; decide
+  load := by
+    intro i hi
+    simp at hi
+    rcases hi with rfl | rfl
+    · exact Or.inr ⟨⟨"m0", 1, true, ["c2pa.actions"], [(false, "m1")]⟩, by decide, by decide⟩
+    · exact Or.inl rfl
+  thumbs := by
+    intro i hi
+    simp at hi
+    rcases hi with rfl | rfl
+    · exact Or.inr trivial
+    · exact Or.inl rfl
+  consistent := by unfold Consistent; decide
+  flat := by
+    intro i hi m hm
+    simp at hi
+    rcases hi with rfl | rfl
+    · have : m = ⟨"m0", 1, true, ["c2pa.actions"], [(false, "m1")]⟩ := by
+        have h : activeMan (ingCA (some (.own true)) storeV1Chain) =
+            some ⟨"m0", 1, true, ["c2pa.actions"], [(false, "m1")]⟩ := by decide
+        rw [h] at hm; cases hm; rfl
+      subst this
+      exact sameSet_of_all (by decide) (by decide)
+    · have h : activeMan ingPlainThumb = none := by decide
+      rw [h] at hm; cases hm
+
+example : Plain s0 ∧ WF {} s0 :=
+  ⟨by intro i hi; simp [s0] at hi,
+   { cfg := ⟨rfl, rfl⟩, ver := Or.inr rfl, label := trivial, alg := rfl, reds := rfl
+     embed := ⟨rfl, rfl⟩, intent := rfl, kept := by decide, one := by unfold OneActions; decide, sep := by unfold Sep; decide
+     load := by intro i hi; simp [s0] at hi
+     thumbs := by intro i hi; simp [s0] at hi
+     consistent := by intro i hi; simp [s0] at hi
+     flat := by intro i hi; simp [s0] at hi }⟩
+
+
+/-- `with_archive ∘ to_archive` is not the identity on builder states, even on a well-formed
+one: the restored builder has the archive's manifest label, marked generators, the typed actions
+label, created-first assertion order and no `format` (version-2 claim) -/
+example : (encode {} s0 "g").map decode ≠ .ok s0 := by decide
 
 end C2pa.C22
